@@ -66,6 +66,7 @@ theorem expire_spec (st : SysSt sem) (n : String) (rel : Bool) (now : Int) :
     · intro _ e he; simp [hk] at he
   | some e0 =>
     simp only
+    generalize (if rel = true then e0.pending - 1 else e0.pending + 1) = p
     split
     · refine ⟨rfl, ?_, ?_, ?_⟩
       · intro m e he
@@ -85,7 +86,7 @@ theorem expire_spec (st : SysSt sem) (n : String) (rel : Bool) (now : Int) :
 theorem getE_fail (cfg : Cfg) (st : SysSt sem) (n : String) (e : CEntry sem) (inst chk : Bool) (now : Int)
     (h : (chk && cfg.checkExistence && !sem.created (sem.load now (storeOf st.store n))) = true) :
     (getE cfg st n e inst chk now).2 = none ∧ (getE cfg st n e inst chk now).1.store = st.store ∧
-    (getE cfg st n e inst chk now).1.table = kdel st.table n := by
+    (getE cfg st n e inst chk now).1.table = st.table := by
   unfold getE; simp [h]
 
 theorem getE_ok (cfg : Cfg) (st : SysSt sem) (n : String) (e : CEntry sem) (inst chk : Bool) (now : Int)
@@ -99,14 +100,54 @@ theorem getE_ok (cfg : Cfg) (st : SysSt sem) (n : String) (e : CEntry sem) (inst
   | false => exact ⟨rfl, rfl, Or.inl rfl⟩
   | true => exact ⟨rfl, rfl, Or.inr ⟨_, rfl, rfl⟩⟩
 
+/-- `getE` in one statement: the storage is untouched; an entry that carries a Location afterwards is an old one or
+the one just loaded (then the load is what was handed out); a failure means the check failed on the fresh load -/
+theorem getE_spec (cfg : Cfg) (st : SysSt sem) (n : String) (e : CEntry sem) (inst chk : Bool) (now : Int) :
+    (getE cfg st n e inst chk now).1.store = st.store ∧
+    (∀ m e1 l', kget (getE cfg st n e inst chk now).1.table m = some e1 → e1.loc = some l' →
+        (∃ e0, kget st.table m = some e0 ∧ e0.loc = some l') ∨ (m = n ∧ (getE cfg st n e inst chk now).2 = some l')) ∧
+    (∀ l, (getE cfg st n e inst chk now).2 = some l → l = sem.load now (storeOf st.store n) ∧
+        ((chk && cfg.checkExistence) = true → sem.created l = true)) ∧
+    ((getE cfg st n e inst chk now).2 = none →
+        chk = true ∧ cfg.checkExistence = true ∧ sem.created (sem.load now (storeOf st.store n)) = false) := by
+  by_cases hchk : (chk && cfg.checkExistence && !sem.created (sem.load now (storeOf st.store n))) = true
+  · obtain ⟨g1, g2, g3⟩ := getE_fail cfg st n e inst chk now hchk
+    refine ⟨g2, ?_, ?_, ?_⟩
+    · intro m e1 l' he hl; rw [g3] at he; exact Or.inl ⟨e1, he, hl⟩
+    · intro l hl; rw [g1] at hl; cases hl
+    · intro _
+      simp [Bool.and_eq_true] at hchk
+      exact ⟨hchk.1.1, hchk.1.2, hchk.2⟩
+  · obtain ⟨g1, g2, g3⟩ := getE_ok cfg st n e inst chk now hchk
+    refine ⟨g2, ?_, ?_, ?_⟩
+    · intro m e1 l' he hl
+      rcases g3 with g3 | ⟨e', he', g3⟩
+      · rw [g3] at he; exact Or.inl ⟨e1, he, hl⟩
+      · rw [g3] at he
+        by_cases hm : m = n
+        · subst hm; rw [kget_kset_same] at he; cases he
+          rw [he'] at hl; cases hl
+          exact Or.inr ⟨rfl, g1⟩
+        · rw [kget_kset_other _ _ _ _ hm] at he; exact Or.inl ⟨e1, he, hl⟩
+    · intro l hl
+      rw [g1] at hl; cases hl
+      refine ⟨rfl, ?_⟩
+      intro hc
+      simp [Bool.and_eq_true] at hchk hc
+      exact hchk hc.1 hc.2
+    · intro h; rw [g1] at h; cases h
+
 theorem openE_spec (cfg : Cfg) (st : SysSt sem) (n : String) (chk : Bool) (now : Int) :
     (openE cfg st n chk now).1.store = st.store ∧
     (∀ m e l', kget (openE cfg st n chk now).1.table m = some e → e.loc = some l' →
         (∃ e0, kget st.table m = some e0 ∧ e0.loc = some l') ∨ (m = n ∧ (openE cfg st n chk now).2 = some l')) ∧
-    (∀ l, (openE cfg st n chk now).2 = some l → (∃ e0, kget st.table n = some e0 ∧ e0.loc = some l) ∨
-        (l = sem.load now (storeOf st.store n) ∧ ((chk && cfg.checkExistence) = true → sem.created l = true))) ∧
+    (∀ l, (openE cfg st n chk now).2 = some l →
+        ((∃ e0, kget st.table n = some e0 ∧ e0.loc = some l) ∨ l = sem.load now (storeOf st.store n)) ∧
+        ((chk && cfg.checkExistence) = true → sem.created l = true)) ∧
     ((openE cfg st n chk now).2 = none →
-        chk = true ∧ cfg.checkExistence = true ∧ sem.created (sem.load now (storeOf st.store n)) = false) := by
+        chk = true ∧ cfg.checkExistence = true ∧
+        ∃ l, sem.created l = false ∧
+          ((∃ e0, kget st.table n = some e0 ∧ e0.loc = some l) ∨ l = sem.load now (storeOf st.store n))) := by
   have hs := expire_spec st n false now
   unfold openE
   cases hx : expire st n false now with
@@ -114,68 +155,77 @@ theorem openE_spec (cfg : Cfg) (st : SysSt sem) (n : String) (chk : Bool) (now :
     rw [hx] at hs
     obtain ⟨hstore, hfrom, hsome, hnone⟩ := hs
     simp only at hstore hfrom hsome hnone
+    have hfrom1 : ∀ m e l', kget st1.table m = some e → e.loc = some l' → ∃ e0, kget st.table m = some e0 ∧ e0.loc = some l' := by
+      intro m e l' he hl
+      obtain ⟨e0, h0, h1⟩ := hfrom m e he
+      exact ⟨e0, h0, h1 ▸ hl⟩
     cases r1 with
     | some l =>
       simp only
-      refine ⟨hstore, ?_, ?_, ?_⟩
-      · intro m e l' he hl
-        obtain ⟨e0, h0, h1⟩ := hfrom m e he
-        exact Or.inl ⟨e0, h0, h1 ▸ hl⟩
-      · intro l2 hl2; cases hl2; exact Or.inl (hsome l rfl)
-      · intro h; cases h
+      by_cases hre : (chk && cfg.checkExistence && !sem.created l) = true
+      · simp only [hre, if_true]
+        refine ⟨hstore, ?_, ?_, ?_⟩
+        · intro m e l' he hl; exact Or.inl (hfrom1 m e l' he hl)
+        · intro l2 hl2; cases hl2
+        · intro _
+          simp [Bool.and_eq_true] at hre
+          exact ⟨hre.1.1, hre.1.2, l, hre.2, Or.inl (hsome l rfl)⟩
+      · simp only [hre]
+        refine ⟨hstore, ?_, ?_, ?_⟩
+        · intro m e l' he hl; exact Or.inl (hfrom1 m e l' he hl)
+        · intro l2 hl2
+          cases hl2
+          refine ⟨Or.inl (hsome l rfl), ?_⟩
+          intro hc
+          simp [Bool.and_eq_true] at hre hc
+          exact hre hc.1 hc.2
+        · intro h; cases h
     | none =>
       simp only
-      have hnone' := hnone rfl
-      -- the state after the (possible) installation of the fresh entry
-      generalize hst2 : (if installs cfg = true then { st1 with table := kset st1.table n ({ expires := newExpires cfg now, pending := false, loc := none } : CEntry sem) } else st1) = st2
-      have hstore2 : st2.store = st.store := by
-        rw [← hst2]; split <;> simp [hstore]
-      -- entries of st2 that carry a Location descend from old ones
-      have hfrom2 : ∀ m e l', kget st2.table m = some e → e.loc = some l' → ∃ e0, kget st.table m = some e0 ∧ e0.loc = some l' := by
-        intro m e l' he hl
-        rw [← hst2] at he
-        split at he
-        · by_cases hm : m = n
-          · subst hm; simp only at he; rw [kget_kset_same] at he; cases he; simp at hl
-          · simp only at he; rw [kget_kset_other _ _ _ _ hm] at he
-            obtain ⟨e0, h0, h1⟩ := hfrom m e he
-            exact ⟨e0, h0, h1 ▸ hl⟩
-        · obtain ⟨e0, h0, h1⟩ := hfrom m e he
-          exact ⟨e0, h0, h1 ▸ hl⟩
-      by_cases hchk : (chk && cfg.checkExistence && !sem.created (sem.load now (storeOf st2.store n))) = true
-      · obtain ⟨g1, g2, g3⟩ := getE_fail cfg st2 n { expires := newExpires cfg now, pending := false, loc := none } (installs cfg) chk now hchk
-        refine ⟨g2.trans hstore2, ?_, ?_, ?_⟩
+      cases hk1 : kget st1.table n with
+      | some e1 =>
+        simp only
+        obtain ⟨g1, g2, g3, g4⟩ := getE_spec cfg st1 n e1 true chk now
+        rw [hstore] at g3 g4
+        refine ⟨g1.trans hstore, ?_, ?_, ?_⟩
         · intro m e l' he hl
-          rw [g3] at he
-          by_cases hm : m = n
-          · subst hm; rw [kget_kdel_same] at he; cases he
-          · rw [kget_kdel_other _ _ _ hm] at he
-            exact Or.inl (hfrom2 m e l' he hl)
-        · intro l hl; rw [g1] at hl; cases hl
-        · intro _
-          rw [hstore2] at hchk
-          simp [Bool.and_eq_true] at hchk
-          exact ⟨hchk.1.1, hchk.1.2, hchk.2⟩
-      · obtain ⟨g1, g2, g3⟩ := getE_ok cfg st2 n { expires := newExpires cfg now, pending := false, loc := none } (installs cfg) chk now hchk
-        refine ⟨g2.trans hstore2, ?_, ?_, ?_⟩
-        · intro m e l' he hl
-          rcases g3 with g3 | ⟨e', he', g3⟩
-          · rw [g3] at he; exact Or.inl (hfrom2 m e l' he hl)
-          · rw [g3] at he
-            by_cases hm : m = n
-            · subst hm; rw [kget_kset_same] at he; cases he
-              rw [he'] at hl; cases hl
-              exact Or.inr ⟨rfl, g1⟩
-            · rw [kget_kset_other _ _ _ _ hm] at he
-              exact Or.inl (hfrom2 m e l' he hl)
+          rcases g2 m e l' he hl with ⟨e0, h0, h1⟩ | h
+          · exact Or.inl (hfrom1 m e0 l' h0 h1)
+          · exact Or.inr h
         · intro l hl
-          rw [g1] at hl; cases hl
-          rw [hstore2] at hchk ⊢
-          refine Or.inr ⟨rfl, ?_⟩
-          intro hc
-          simp [Bool.and_eq_true] at hchk hc
-          exact hchk hc.1 hc.2
-        · intro h; rw [g1] at h; cases h
+          obtain ⟨h1, h2⟩ := g3 l hl
+          exact ⟨Or.inr h1, h2⟩
+        · intro h
+          obtain ⟨h1, h2, h3⟩ := g4 h
+          exact ⟨h1, h2, _, h3, Or.inr rfl⟩
+      | none =>
+        simp only
+        -- the state after the (possible) installation of the fresh entry
+        generalize hst2 : (if installs cfg = true then { st1 with table := kset st1.table n ({ expires := newExpires cfg now, pending := 1, loc := none } : CEntry sem) } else st1) = st2
+        have hstore2 : st2.store = st.store := by
+          rw [← hst2]; split <;> simp [hstore]
+        have hfrom2 : ∀ m e l', kget st2.table m = some e → e.loc = some l' → ∃ e0, kget st.table m = some e0 ∧ e0.loc = some l' := by
+          intro m e l' he hl
+          rw [← hst2] at he
+          split at he
+          · by_cases hm : m = n
+            · subst hm; simp only at he; rw [kget_kset_same] at he; cases he; simp at hl
+            · simp only at he; rw [kget_kset_other _ _ _ _ hm] at he
+              exact hfrom1 m e l' he hl
+          · exact hfrom1 m e l' he hl
+        obtain ⟨g1, g2, g3, g4⟩ := getE_spec cfg st2 n { expires := newExpires cfg now, pending := 1, loc := none } (installs cfg) chk now
+        rw [hstore2] at g3 g4
+        refine ⟨g1.trans hstore2, ?_, ?_, ?_⟩
+        · intro m e l' he hl
+          rcases g2 m e l' he hl with ⟨e0, h0, h1⟩ | h
+          · exact Or.inl (hfrom2 m e0 l' h0 h1)
+          · exact Or.inr h
+        · intro l hl
+          obtain ⟨h1, h2⟩ := g3 l hl
+          exact ⟨Or.inr h1, h2⟩
+        · intro h
+          obtain ⟨h1, h2, h3⟩ := g4 h
+          exact ⟨h1, h2, _, h3, Or.inr rfl⟩
 
 theorem storeOf_kset_same (store : List (String × sem.S)) (n : String) (v : sem.S) : storeOf (kset store n v) n = v := by
   simp [storeOf, kget_kset_same]
@@ -192,17 +242,16 @@ theorem dget_kset_other (d : DSt sem) (n m : String) (p : sem.L × sem.S) (t : I
     dget { d with locs := kset d.locs n p } m t = dget d m t := by
   simp [dget, kget_kset_other _ _ _ _ h]
 
-/-- every cached Location is faithful to the storage (and created, when existence is checked) -/
-def TabGood (h : ReloadOK sem) (check : Bool) (st : SysSt sem) : Prop :=
-  ∀ n e l, kget st.table n = some e → e.loc = some l →
-    h.R l (storeOf st.store n) ∧ (check = true → sem.created l = true)
+/-- every cached Location is faithful to the storage -/
+def TabGood (h : ReloadOK sem) (st : SysSt sem) : Prop :=
+  ∀ n e l, kget st.table n = some e → e.loc = some l → h.R l (storeOf st.store n)
 
 /-- the directly operated locations see the same storage and are faithful to it -/
 def DirOK (h : ReloadOK sem) (st : SysSt sem) (d : DSt sem) : Prop :=
   ∀ n t, (dget d n t).2 = storeOf st.store n ∧ h.R (dget d n t).1 (storeOf st.store n)
 
-theorem tabGood_release (h : ReloadOK sem) (check : Bool) (st : SysSt sem) (n : String) (now : Int)
-    (hT : TabGood h check st) : TabGood h check (releaseE st n now) := by
+theorem tabGood_release (h : ReloadOK sem) (st : SysSt sem) (n : String) (now : Int)
+    (hT : TabGood h st) : TabGood h (releaseE st n now) := by
   obtain ⟨hs, hf, _, _⟩ := expire_spec st n true now
   intro m e l he hl
   obtain ⟨e0, h0, h1⟩ := hf m e he
@@ -211,6 +260,10 @@ theorem tabGood_release (h : ReloadOK sem) (check : Bool) (st : SysSt sem) (n : 
 
 theorem release_store (st : SysSt sem) (n : String) (now : Int) : (releaseE st n now).store = st.store :=
   (expire_spec st n true now).1
+
+theorem dirOK_release (h : ReloadOK sem) (st : SysSt sem) (d : DSt sem) (n : String) (now : Int)
+    (hD : DirOK h st d) : DirOK h (releaseE st n now) d := by
+  intro m t; rw [release_store]; exact hD m t
 
 theorem kget_updLoc_same (table : List (String × CEntry sem)) (n : String) (l : sem.L) (e : CEntry sem)
     (he : kget (updLoc table n l) n = some e) : e.loc = some l := by
@@ -226,6 +279,10 @@ theorem kget_updLoc_other (table : List (String × CEntry sem)) (n m : String) (
   | none => rfl
   | some e0 => simp only; exact kget_kset_other _ _ _ _ h
 
+/-- the state after a call (or `mark`) through the instance handed out for `n`: new storage, mutated instance -/
+def updSt (st1 : SysSt sem) (n : String) (l2 : sem.L) (s2 : sem.S) : SysSt sem :=
+  { st1 with store := kset st1.store n s2, table := updLoc st1.table n l2 }
+
 theorem reqE_api_none (cfg : Cfg) (st st1 : SysSt sem) (n : String) (op : sem.Op) (t1 t2 : Int)
     (ho : openE cfg st n true t1 = (st1, none)) :
     reqE cfg st (.api n op) t1 t2 = (releaseE st1 n t2, .notFound) := by
@@ -234,10 +291,9 @@ theorem reqE_api_none (cfg : Cfg) (st st1 : SysSt sem) (n : String) (op : sem.Op
 theorem reqE_api_some (cfg : Cfg) (st st1 : SysSt sem) (n : String) (op : sem.Op) (t1 t2 : Int) (l : sem.L)
     (ho : openE cfg st n true t1 = (st1, some l)) :
     reqE cfg st (.api n op) t1 t2 =
-      (releaseE { st1 with store := kset st1.store n (sem.exec l (storeOf st1.store n) op).2.1,
-                           table := updLoc st1.table n (sem.exec l (storeOf st1.store n) op).1 } n t2,
+      (releaseE (updSt st1 n (sem.exec l (storeOf st1.store n) op).1 (sem.exec l (storeOf st1.store n) op).2.1) n t2,
        .ok (sem.exec l (storeOf st1.store n) op).2.2) := by
-  simp [reqE, ho]
+  simp [reqE, ho, updSt]
 
 theorem reqD_api_fail (d : DSt sem) (n : String) (op : sem.Op) (t : Int) (check : Bool)
     (hc : (check && !sem.created (dget d n t).1) = true) :
@@ -251,11 +307,41 @@ theorem reqD_api_ok (d : DSt sem) (n : String) (op : sem.Op) (t : Int) (check : 
        .ok (sem.exec (dget d n t).1 (dget d n t).2 op).2.2) := by
   simp only [reqD, hc]; rfl
 
+/-- the state after a call (or `mark`) through the instance `l` that `Open` handed out -/
+theorem tabGood_upd (h : ReloadOK sem) (st st1 : SysSt sem) (n : String) (l2 : sem.L) (s2 : sem.S) (P : sem.L → Prop)
+    (hT : TabGood h st) (hs : st1.store = st.store)
+    (otab : ∀ m e l', kget st1.table m = some e → e.loc = some l' →
+        (∃ e0, kget st.table m = some e0 ∧ e0.loc = some l') ∨ (m = n ∧ P l'))
+    (hR2 : h.R l2 s2) :
+    TabGood h (updSt st1 n l2 s2) := by
+  intro m e l' he hl
+  unfold updSt at he ⊢
+  by_cases hm : m = n
+  · subst hm
+    simp only at he
+    have := kget_updLoc_same _ _ _ _ he
+    rw [this] at hl; cases hl
+    simp only [storeOf_kset_same]
+    exact hR2
+  · simp only at he
+    rw [kget_updLoc_other _ _ _ _ hm] at he
+    simp only [storeOf_kset_other _ _ _ _ hm, hs]
+    rcases otab m e l' he hl with ⟨e0, h0, h1⟩ | ⟨h2, _⟩
+    · exact hT m e0 l' h0 h1
+    · exact absurd h2 hm
+
 theorem step_sim (h : ReloadOK sem) (cfg : Cfg) (st : SysSt sem) (d : DSt sem) (r : Req sem) (t1 t2 t1' : Int)
-    (hT : TabGood h cfg.checkExistence st) (hD : DirOK h st d) (hr : ReqOK sem cfg.checkExistence r) :
+    (hT : TabGood h st) (hD : DirOK h st d) :
     (reqE cfg st r t1 t2).2 = (reqD cfg.checkExistence d r t1').2 ∧
-    TabGood h cfg.checkExistence (reqE cfg st r t1 t2).1 ∧
+    TabGood h (reqE cfg st r t1 t2).1 ∧
     DirOK h (reqE cfg st r t1 t2).1 (reqD cfg.checkExistence d r t1').1 := by
+  -- what `Open` hands out is faithful to the storage
+  have hopenR : ∀ n l, ((∃ e0, kget st.table n = some e0 ∧ e0.loc = some l) ∨ l = sem.load t1 (storeOf st.store n)) →
+      h.R l (storeOf st.store n) := by
+    intro n l hl
+    rcases hl with ⟨e0, h0, h1⟩ | hl
+    · exact hT n e0 l h0 h1
+    · exact hl ▸ h.load_R t1 _
   cases r with
   | api n op =>
     obtain ⟨os, otab, osome, onone⟩ := openE_spec cfg st n true t1
@@ -264,53 +350,39 @@ theorem step_sim (h : ReloadOK sem) (cfg : Cfg) (st : SysSt sem) (d : DSt sem) (
     | mk st1 r1 =>
       rw [ho] at os otab osome onone
       simp only at os otab osome onone
+      have hT1 : TabGood h st1 := by
+        intro m e l he hl
+        rw [os]
+        rcases otab m e l he hl with ⟨e0, h0, h1⟩ | ⟨h2, h3⟩
+        · exact hT m e0 l h0 h1
+        · subst h2; exact hopenR m l (osome l h3).1
       cases r1 with
       | none =>
-        obtain ⟨_, hc, hcr⟩ := onone rfl
+        obtain ⟨_, hc, l, hcr, hl⟩ := onone rfl
         have hcp : sem.created (dget d n t1').1 = false := by
-          rw [h.created_eq _ _ _ hpR (h.load_R t1 _)]; exact hcr
+          rw [h.created_eq _ _ _ hpR (hopenR n l hl)]; exact hcr
         rw [reqE_api_none cfg st st1 n op t1 t2 ho, reqD_api_fail d n op t1' _ (by simp [hc, hcp])]
-        have hT1 : TabGood h cfg.checkExistence st1 := by
-          intro m e l he hl
-          rcases otab m e l he hl with ⟨e0, h0, h1⟩ | ⟨_, h2⟩
-          · rw [os]; exact hT m e0 l h0 h1
-          · cases h2
-        refine ⟨rfl, tabGood_release h _ st1 n t2 hT1, ?_⟩
+        refine ⟨rfl, tabGood_release h st1 n t2 hT1, ?_⟩
         intro m t; simp only [release_store, os]; exact hD m t
       | some l =>
-        have hgood : h.R l (storeOf st.store n) ∧ (cfg.checkExistence = true → sem.created l = true) := by
-          rcases osome l rfl with ⟨e0, h0, h1⟩ | ⟨hl, hcr⟩
-          · exact hT n e0 l h0 h1
-          · exact ⟨hl ▸ h.load_R t1 _, fun hc => hcr (by simp [hc])⟩
+        obtain ⟨hl, hcr⟩ := osome l rfl
+        have hR : h.R l (storeOf st.store n) := hopenR n l hl
         have hcp : (cfg.checkExistence && !sem.created (dget d n t1').1) = false := by
-          rw [h.created_eq _ _ _ hpR hgood.1]
+          rw [h.created_eq _ _ _ hpR hR]
           cases hc : cfg.checkExistence with
           | false => rfl
-          | true => simp [hgood.2 hc]
+          | true => simp [hcr (by simp [hc])]
         rw [reqE_api_some cfg st st1 n op t1 t2 l ho, reqD_api_ok d n op t1' _ hcp]
         rw [os]
         have hx : (sem.exec l (storeOf st.store n) op).2 = (sem.exec (dget d n t1').1 (dget d n t1').2 op).2 := by
-          rw [hp2]; exact h.exec_eq _ _ _ _ hgood.1 hpR
+          rw [hp2]; exact h.exec_eq _ _ _ _ hR hpR
         refine ⟨?_, ?_, ?_⟩
         · simp only [hx]
         · apply tabGood_release
-          intro m e l' he hl
-          by_cases hm : m = n
-          · subst hm
-            simp only at he
-            have := kget_updLoc_same _ _ _ _ he
-            rw [this] at hl; cases hl
-            simp only [storeOf_kset_same]
-            refine ⟨h.exec_R _ _ _ hgood.1, fun hc => ?_⟩
-            exact hr hc l _ (hgood.2 hc)
-          · simp only at he
-            rw [kget_updLoc_other _ _ _ _ hm] at he
-            simp only [storeOf_kset_other _ _ _ _ hm]
-            rcases otab m e l' he hl with ⟨e0, h0, h1⟩ | ⟨h2, _⟩
-            · exact hT m e0 l' h0 h1
-            · exact absurd h2 hm
+          exact tabGood_upd h st st1 n (sem.exec l (storeOf st.store n) op).1 (sem.exec l (storeOf st.store n) op).2.1 _ hT os
+            otab (h.exec_R _ _ _ hR)
         · intro m t
-          simp only [release_store]
+          simp only [release_store, updSt]
           by_cases hm : m = n
           · subst hm
             rw [dget_kset_same]
@@ -320,7 +392,7 @@ theorem step_sim (h : ReloadOK sem) (cfg : Cfg) (st : SysSt sem) (d : DSt sem) (
             · have := h.exec_R _ _ op hpR
               rw [hx, hp2]; exact this
           · rw [dget_kset_other _ _ _ _ _ hm]
-            simp only [storeOf_kset_other _ _ _ _ hm]
+            simp only [storeOf_kset_other _ _ _ _ hm, os]
             exact hD m t
   | create n =>
     obtain ⟨os, otab, osome, onone⟩ := openE_spec cfg st n false t1
@@ -332,49 +404,36 @@ theorem step_sim (h : ReloadOK sem) (cfg : Cfg) (st : SysSt sem) (d : DSt sem) (
       cases r1 with
       | none => exact absurd (onone rfl).1 (by simp)
       | some l =>
-        have hR : h.R l (storeOf st.store n) := by
-          rcases osome l rfl with ⟨e0, h0, h1⟩ | ⟨hl, _⟩
-          · exact (hT n e0 l h0 h1).1
-          · exact hl ▸ h.load_R t1 _
+        have hR : h.R l (storeOf st.store n) := hopenR n l (osome l rfl).1
+        have hT1 : TabGood h st1 := by
+          intro m e l' he hl
+          rw [os]
+          rcases otab m e l' he hl with ⟨e0, h0, h1⟩ | ⟨h2, h3⟩
+          · exact hT m e0 l' h0 h1
+          · cases h3; subst h2; exact hR
         have hce : sem.created (dget d n t1').1 = sem.created l := h.created_eq _ _ _ hpR hR
         cases hcl : sem.created l with
         | true =>
-          have e1 : reqE cfg st (.create n) t1 t2 = (st1, .created false) := by simp [reqE, ho, hcl]
+          have e1 : reqE cfg st (.create n) t1 t2 = (releaseE st1 n t2, .created false) := by simp [reqE, ho, hcl]
           have e2 : reqD cfg.checkExistence d (.create n) t1' = (d, .created false) := by
             simp only [reqD, hce, hcl, if_true]
           rw [e1, e2]
-          refine ⟨rfl, ?_, ?_⟩
-          · intro m e l' he hl
-            rw [os]
-            rcases otab m e l' he hl with ⟨e0, h0, h1⟩ | ⟨h2, h3⟩
-            · exact hT m e0 l' h0 h1
-            · cases h3; subst h2; exact ⟨hR, fun _ => hcl⟩
-          · intro m t; simp only [os]; exact hD m t
+          refine ⟨rfl, tabGood_release h st1 n t2 hT1, ?_⟩
+          intro m t; simp only [release_store, os]; exact hD m t
         | false =>
           have e1 : reqE cfg st (.create n) t1 t2 =
-              ({ st1 with store := kset st1.store n (sem.mark l (storeOf st1.store n)).2,
-                          table := updLoc st1.table n (sem.mark l (storeOf st1.store n)).1 }, .created true) := by
-            simp [reqE, ho, hcl]
+              (releaseE (updSt st1 n (sem.mark l (storeOf st1.store n)).1 (sem.mark l (storeOf st1.store n)).2) n t2, .created true) := by
+            simp [reqE, ho, hcl, updSt]
           have e2 : reqD cfg.checkExistence d (.create n) t1' =
               ({ d with locs := kset d.locs n (sem.mark (dget d n t1').1 (dget d n t1').2) }, .created true) := by
             simp only [reqD, hce, hcl]; rfl
           rw [e1, e2, os]
           refine ⟨rfl, ?_, ?_⟩
-          · intro m e l' he hl
-            by_cases hm : m = n
-            · subst hm
-              simp only at he
-              have := kget_updLoc_same _ _ _ _ he
-              rw [this] at hl; cases hl
-              simp only [storeOf_kset_same]
-              exact ⟨h.mark_R _ _ hR, fun _ => h.mark_created _ _⟩
-            · simp only at he
-              rw [kget_updLoc_other _ _ _ _ hm] at he
-              simp only [storeOf_kset_other _ _ _ _ hm]
-              rcases otab m e l' he hl with ⟨e0, h0, h1⟩ | ⟨h2, _⟩
-              · exact hT m e0 l' h0 h1
-              · exact absurd h2 hm
+          · apply tabGood_release
+            exact tabGood_upd h st st1 n (sem.mark l (storeOf st.store n)).1 (sem.mark l (storeOf st.store n)).2 _ hT os
+              otab (h.mark_R _ _ hR)
           · intro m t
+            simp only [release_store, updSt]
             by_cases hm : m = n
             · subst hm
               rw [dget_kset_same]
@@ -382,41 +441,35 @@ theorem step_sim (h : ReloadOK sem) (cfg : Cfg) (st : SysSt sem) (d : DSt sem) (
               rw [hp2]
               exact ⟨(h.mark_eq _ _ _ hR hpR).symm, h.mark_eq _ _ _ hR hpR ▸ h.mark_R _ _ hpR⟩
             · rw [dget_kset_other _ _ _ _ _ hm]
-              simp only [storeOf_kset_other _ _ _ _ hm]
+              simp only [storeOf_kset_other _ _ _ _ hm, os]
               exact hD m t
   | peek n =>
     obtain ⟨os, otab, osome, _⟩ := openE_spec cfg st n false t1
-    have hc : cfg.checkExistence = false := hr
-    have e1 : reqE cfg st (.peek n) t1 t2 = ((openE cfg st n false t1).1, .peeked) := by simp [reqE]
+    have e1 : reqE cfg st (.peek n) t1 t2 = (releaseE (openE cfg st n false t1).1 n t2, .peeked) := by simp [reqE]
     have e2 : reqD cfg.checkExistence d (.peek n) t1' = (d, .peeked) := by simp [reqD]
     rw [e1, e2]
     refine ⟨rfl, ?_, ?_⟩
-    · intro m e l' he hl
-      simp only at he ⊢
+    · apply tabGood_release
+      intro m e l' he hl
       rw [os]
-      refine ⟨?_, fun hc' => absurd hc' (by simp [hc])⟩
       rcases otab m e l' he hl with ⟨e0, h0, h1⟩ | ⟨h2, h3⟩
-      · exact (hT m e0 l' h0 h1).1
-      · subst h2
-        rcases osome l' h3 with ⟨e0, h0, h1⟩ | ⟨hl2, _⟩
-        · exact (hT m e0 l' h0 h1).1
-        · exact hl2 ▸ h.load_R t1 _
-    · intro m t; simp only [os]; exact hD m t
+      · exact hT m e0 l' h0 h1
+      · subst h2; exact hopenR m l' (osome l' h3).1
+    · intro m t; simp only [release_store, os]; exact hD m t
 
 theorem run_sim (h : ReloadOK sem) (cfg : Cfg) :
     ∀ (h1 h2 : List (Req sem × Int × Int)) (st : SysSt sem) (d : DSt sem),
-      SameReqs h1 h2 → (∀ x ∈ h1, ReqOK sem cfg.checkExistence x.1) →
-      TabGood h cfg.checkExistence st → DirOK h st d →
+      SameReqs h1 h2 → TabGood h st → DirOK h st d →
       (runE cfg st h1).2 = (runD cfg.checkExistence d h2).2 := by
   intro h1
   induction h1 with
   | nil =>
-    intro h2 st d hs _ _ _
+    intro h2 st d hs _ _
     cases h2 with
     | nil => rfl
     | cons b r2 => exact absurd hs (by simp [SameReqs])
   | cons a r1 ih =>
-    intro h2 st d hs hok hT hD
+    intro h2 st d hs hT hD
     cases h2 with
     | nil => exact absurd hs (by simp [SameReqs])
     | cons b r2 =>
@@ -425,13 +478,13 @@ theorem run_sim (h : ReloadOK sem) (cfg : Cfg) :
       simp only [SameReqs] at hs
       obtain ⟨hab, hrest⟩ := hs
       subst hab
-      obtain ⟨ho, hT', hD'⟩ := step_sim h cfg st d ra ta1 ta2 tb1 hT hD (hok _ (List.mem_cons_self ..))
-      have := ih r2 _ _ hrest (fun x hx => hok x (List.mem_cons_of_mem _ hx)) hT' hD'
+      obtain ⟨ho, hT', hD'⟩ := step_sim h cfg st d ra ta1 ta2 tb1 hT hD
+      have := ih r2 _ _ hrest hT' hD'
       simp only [runE, runD]
       rw [ho, this]
 
-theorem init_sim (h : ReloadOK sem) (check : Bool) (s0 : List (String × sem.S)) :
-    TabGood h check ({ store := s0 } : SysSt sem) ∧ DirOK h ({ store := s0 } : SysSt sem) ({ base := s0 } : DSt sem) := by
+theorem init_sim (h : ReloadOK sem) (s0 : List (String × sem.S)) :
+    TabGood h ({ store := s0 } : SysSt sem) ∧ DirOK h ({ store := s0 } : SysSt sem) ({ base := s0 } : DSt sem) := by
   constructor
   · intro n e l he; simp [kget] at he
   · intro n t; exact ⟨rfl, h.load_R _ _⟩
@@ -445,6 +498,7 @@ theorem expire_other (st : SysSt sem) (m n : String) (rel : Bool) (now : Int) (h
   | none => rfl
   | some e0 =>
     simp only
+    generalize (if rel = true then e0.pending - 1 else e0.pending + 1) = p
     split
     · exact kget_kset_other _ _ _ _ h
     · exact kget_kdel_other _ _ _ h
@@ -454,7 +508,7 @@ theorem getE_other (cfg : Cfg) (st : SysSt sem) (m n : String) (e : CEntry sem) 
   unfold getE
   simp only
   split
-  · exact kget_kdel_other _ _ _ h
+  · rfl
   · cases inst with
     | false => rfl
     | true => exact kget_kset_other _ _ _ _ h
@@ -467,13 +521,20 @@ theorem openE_other (cfg : Cfg) (st : SysSt sem) (m n : String) (chk : Bool) (no
   | mk st1 r1 =>
     rw [hx] at h1
     cases r1 with
-    | some l => exact h1
+    | some l => simp only; split <;> exact h1
     | none =>
       simp only
-      rw [getE_other _ _ _ _ _ _ _ _ h]
-      split
-      · simp only; rw [kget_kset_other _ _ _ _ h]; exact h1
-      · exact h1
+      cases hk1 : kget st1.table m with
+      | some e1 => simp only; rw [getE_other _ _ _ _ _ _ _ _ h]; exact h1
+      | none =>
+        simp only
+        rw [getE_other _ _ _ _ _ _ _ _ h]
+        split
+        · simp only; rw [kget_kset_other _ _ _ _ h]; exact h1
+        · exact h1
+
+theorem release_other (st : SysSt sem) (m n : String) (now : Int) (h : n ≠ m) :
+    kget (releaseE st m now).table n = kget st.table n := expire_other st m n true now h
 
 theorem reqE_other (cfg : Cfg) (st : SysSt sem) (r : Req sem) (n : String) (t1 t2 : Int) (h : n ≠ r.name) :
     kget (reqE cfg st r t1 t2).1.table n = kget st.table n ∧
@@ -489,12 +550,12 @@ theorem reqE_other (cfg : Cfg) (st : SysSt sem) (r : Req sem) (n : String) (t1 t
       cases r1 with
       | none =>
         rw [reqE_api_none cfg st st1 m op t1 t2 hx]
-        exact ⟨(expire_other _ _ _ _ _ h).trans ho, by rw [release_store]; exact congrArg (fun s => storeOf s n) hs⟩
+        exact ⟨(release_other _ _ _ _ h).trans ho, by rw [release_store]; exact congrArg (fun s => storeOf s n) hs⟩
       | some l =>
         rw [reqE_api_some cfg st st1 m op t1 t2 l hx]
-        refine ⟨(expire_other _ _ _ _ _ h).trans ?_, ?_⟩
-        · simp only; rw [kget_updLoc_other _ _ _ _ h]; exact ho
-        · rw [release_store]; simp only; rw [storeOf_kset_other _ _ _ _ h]; exact congrArg (fun s => storeOf s n) hs
+        refine ⟨(release_other _ _ _ _ h).trans ?_, ?_⟩
+        · simp only [updSt]; rw [kget_updLoc_other _ _ _ _ h]; exact ho
+        · rw [release_store]; simp only [updSt]; rw [storeOf_kset_other _ _ _ _ h]; exact congrArg (fun s => storeOf s n) hs
   | create m =>
     have h : n ≠ m := h
     have ho := openE_other cfg st m n false t1 h
@@ -504,18 +565,27 @@ theorem reqE_other (cfg : Cfg) (st : SysSt sem) (r : Req sem) (n : String) (t1 t
       rw [hx] at ho hs
       simp only at ho hs
       cases r1 with
-      | none => simp only [reqE, hx]; exact ⟨ho, congrArg (fun s => storeOf s n) hs⟩
+      | none =>
+        simp only [reqE, hx]
+        exact ⟨(release_other _ _ _ _ h).trans ho, by rw [release_store]; exact congrArg (fun s => storeOf s n) hs⟩
       | some l =>
         simp only [reqE, hx]
         split
-        · exact ⟨ho, congrArg (fun s => storeOf s n) hs⟩
-        · simp only
-          rw [kget_updLoc_other _ _ _ _ h, storeOf_kset_other _ _ _ _ h]
-          exact ⟨ho, congrArg (fun s => storeOf s n) hs⟩
+        · exact ⟨(release_other _ _ _ _ h).trans ho, by rw [release_store]; exact congrArg (fun s => storeOf s n) hs⟩
+        · refine ⟨(release_other _ _ _ _ h).trans ?_, ?_⟩
+          · simp only; rw [kget_updLoc_other _ _ _ _ h]; exact ho
+          · rw [release_store]; simp only; rw [storeOf_kset_other _ _ _ _ h]; exact congrArg (fun s => storeOf s n) hs
   | peek m =>
     have h : n ≠ m := h
     simp only [reqE]
-    exact ⟨openE_other cfg st m n false t1 h, congrArg (fun s => storeOf s n) (openE_spec cfg st m false t1).1⟩
+    exact ⟨(release_other _ _ _ _ h).trans (openE_other cfg st m n false t1 h),
+      by rw [release_store]; exact congrArg (fun s => storeOf s n) (openE_spec cfg st m false t1).1⟩
+
+/-- whatever the state of the cache: with existence checking on, `Open` hands a checked request only an instance that
+carries the marker -/
+theorem openE_checked (cfg : Cfg) (hc : cfg.checkExistence = true) (st : SysSt sem) (n : String) (now : Int) (l : sem.L)
+    (h : (openE cfg st n true now).2 = some l) : sem.created l = true :=
+  ((openE_spec cfg st n true now).2.2.1 l h).2 (by simp [hc])
 
 /-- a checked request to a name that has no cache entry and no marker in storage fails and changes nothing -/
 theorem reqE_api_absent (cfg : Cfg) (hc : cfg.checkExistence = true) (st : SysSt sem) (n : String) (op : sem.Op) (t1 t2 : Int)
@@ -524,16 +594,22 @@ theorem reqE_api_absent (cfg : Cfg) (hc : cfg.checkExistence = true) (st : SysSt
     kget (reqE cfg st (.api n op) t1 t2).1.table n = none ∧
     (reqE cfg st (.api n op) t1 t2).1.store = st.store := by
   have hexp : expire st n false t1 = (st, none) := by simp [expire, htab]
+  -- after the failed open the name has no entry, or one without a Location that only this request holds
   have hopen : (openE cfg st n true t1).2 = none ∧ (openE cfg st n true t1).1.store = st.store ∧
-      kget (openE cfg st n true t1).1.table n = none := by
+      (kget (openE cfg st n true t1).1.table n = none ∨
+       ∃ x, kget (openE cfg st n true t1).1.table n = some ({ expires := x, pending := 1, loc := none } : CEntry sem)) := by
     unfold openE
     rw [hexp]
-    simp only
-    generalize hst2 : (if installs cfg = true then { st with table := kset st.table n ({ expires := newExpires cfg t1, pending := false, loc := none } : CEntry sem) } else st) = st2
+    simp only [htab]
+    generalize hst2 : (if installs cfg = true then { st with table := kset st.table n ({ expires := newExpires cfg t1, pending := 1, loc := none } : CEntry sem) } else st) = st2
     have hs2 : st2.store = st.store := by rw [← hst2]; split <;> rfl
-    obtain ⟨g1, g2, g3⟩ := getE_fail cfg st2 n { expires := newExpires cfg t1, pending := false, loc := none } (installs cfg) true t1
+    have ht2 : kget st2.table n = none ∨ ∃ x, kget st2.table n = some ({ expires := x, pending := 1, loc := none } : CEntry sem) := by
+      rw [← hst2]; split
+      · exact Or.inr ⟨_, kget_kset_same _ _ _⟩
+      · exact Or.inl htab
+    obtain ⟨g1, g2, g3⟩ := getE_fail cfg st2 n { expires := newExpires cfg t1, pending := 1, loc := none } (installs cfg) true t1
       (by rw [hs2]; simp [hc, hcr])
-    exact ⟨g1, g2.trans hs2, by rw [g3]; exact kget_kdel_same _ _⟩
+    exact ⟨g1, g2.trans hs2, by rw [g3]; exact ht2⟩
   cases hx : openE cfg st n true t1 with
   | mk st1 r1 =>
     rw [hx] at hopen
@@ -542,7 +618,9 @@ theorem reqE_api_absent (cfg : Cfg) (hc : cfg.checkExistence = true) (st : SysSt
     subst h1
     rw [reqE_api_none cfg st st1 n op t1 t2 hx]
     refine ⟨rfl, ?_, ?_⟩
-    · simp [releaseE, expire, h3]
+    · rcases h3 with h3 | ⟨x, h3⟩
+      · simp [releaseE, expire, h3]
+      · simp [releaseE, expire, h3, kget_kdel_same]
     · rw [release_store]; exact h2
 
 theorem no_create_run (cfg : Cfg) (hc : cfg.checkExistence = true) (n : String) (s : sem.S)
@@ -580,9 +658,144 @@ theorem no_create_run (cfg : Cfg) (hc : cfg.checkExistence = true) (n : String) 
       · subst hp; exact absurd hpn hname
       · exact i1 p hp hpn
 
+/-- the name `n` is not created: its storage is `s` (which holds no marker) and whatever instance of it is cached
+carries no marker -/
+def Unmarked (st : SysSt sem) (n : String) (s : sem.S) : Prop :=
+  storeOf st.store n = s ∧ ∀ e l, kget st.table n = some e → e.loc = some l → sem.created l = false
+
+/-- a request that is not `CreateLocation n` keeps `n` un-created, and fails when it is a checked request to `n` —
+also after unchecked opens (`GetLocation n`) have put an instance of `n` into the cache -/
+theorem reqE_unmarked (cfg : Cfg) (hc : cfg.checkExistence = true) (n : String) (s : sem.S)
+    (hn : ∀ t, sem.created (sem.load t s) = false) (st : SysSt sem) (r : Req sem) (t1 t2 : Int)
+    (hr : r ≠ .create n) (hU : Unmarked st n s) :
+    Unmarked (reqE cfg st r t1 t2).1 n s ∧ (∀ op, r = .api n op → (reqE cfg st r t1 t2).2 = .notFound) := by
+  obtain ⟨hs, hT⟩ := hU
+  by_cases hname : r.name = n
+  · cases r with
+    | create m => exact absurd (by simp [Req.name] at hname; rw [hname]) hr
+    | api m op =>
+      have hm : m = n := hname
+      subst hm
+      obtain ⟨os, otab, osome, onone⟩ := openE_spec cfg st m true t1
+      cases ho : openE cfg st m true t1 with
+      | mk st1 r1 =>
+        rw [ho] at os otab osome onone
+        simp only at os otab osome onone
+        cases r1 with
+        | some l =>
+          -- impossible: the instance handed out carries the marker
+          obtain ⟨hl, hcr⟩ := osome l rfl
+          have hcl : sem.created l = true := hcr (by simp [hc])
+          rcases hl with ⟨e0, h0, h1⟩ | hl
+          · rw [hT e0 l h0 h1] at hcl; cases hcl
+          · rw [hl, hs, hn t1] at hcl; cases hcl
+        | none =>
+          rw [reqE_api_none cfg st st1 m op t1 t2 ho]
+          refine ⟨⟨by rw [release_store, os]; exact hs, ?_⟩, fun _ _ => rfl⟩
+          intro e l he hl
+          obtain ⟨e1, h1, h2⟩ := (expire_spec st1 m true t2).2.1 m e he
+          rcases otab m e1 l h1 (h2 ▸ hl) with ⟨e0, h0, h3⟩ | ⟨_, h3⟩
+          · exact hT e0 l h0 h3
+          · cases h3
+    | peek m =>
+      have hm : m = n := hname
+      subst hm
+      obtain ⟨os, otab, osome, _⟩ := openE_spec cfg st m false t1
+      refine ⟨⟨?_, ?_⟩, fun op h => by cases h⟩
+      · simp only [reqE]; rw [release_store, os]; exact hs
+      · intro e l he hl
+        simp only [reqE] at he
+        obtain ⟨e1, h1, h2⟩ := (expire_spec (openE cfg st m false t1).1 m true t2).2.1 m e he
+        rcases otab m e1 l h1 (h2 ▸ hl) with ⟨e0, h0, h3⟩ | ⟨_, h3⟩
+        · exact hT e0 l h0 h3
+        · rcases (osome l h3).1 with ⟨e0, h0, h4⟩ | h4
+          · exact hT e0 l h0 h4
+          · rw [h4, hs]; exact hn t1
+  · obtain ⟨g1, g2⟩ := reqE_other cfg st r n t1 t2 (fun e => hname e.symm)
+    refine ⟨⟨g2.trans hs, ?_⟩, ?_⟩
+    · intro e l he hl; rw [g1] at he; exact hT e l he hl
+    · intro op h; subst h; exact absurd rfl hname
+
+theorem unmarked_run (cfg : Cfg) (hc : cfg.checkExistence = true) (n : String) (s : sem.S)
+    (hn : ∀ t, sem.created (sem.load t s) = false) :
+    ∀ (hist : List (Req sem × Int × Int)) (st : SysSt sem),
+      (∀ x ∈ hist, x.1 ≠ .create n) → Unmarked st n s →
+      (∀ p ∈ hist.zip (runE cfg st hist).2, ∀ op, p.1.1 = .api n op → p.2 = .notFound) ∧
+      storeOf (runE cfg st hist).1.store n = s := by
+  intro hist
+  induction hist with
+  | nil => intro st _ hU; exact ⟨by intro p hp; simp [runE] at hp, hU.1⟩
+  | cons a rest ih =>
+    intro st hok hU
+    obtain ⟨r, t1, t2⟩ := a
+    simp only [runE]
+    obtain ⟨g1, g2⟩ := reqE_unmarked cfg hc n s hn st r t1 t2 (hok (r, t1, t2) (List.mem_cons_self ..)) hU
+    obtain ⟨i1, i2⟩ := ih (reqE cfg st r t1 t2).1 (fun x hx => hok x (List.mem_cons_of_mem _ hx)) g1
+    refine ⟨?_, i2⟩
+    intro p hp op hpn
+    simp only [List.zip_cons_cons, List.mem_cons] at hp
+    rcases hp with hp | hp
+    · subst hp; exact g2 op hpn
+    · exact i1 p hp op hpn
+
+/-! ### `keepMark`: `ClearLocation` keeps the marker, and reloading stays the identity -/
+
+theorem keepMarkExec_R (h : ReloadOK sem) (isClear : sem.Op → Bool) (l : sem.L) (s : sem.S) (op : sem.Op) (hR : h.R l s) :
+    h.R (keepMarkExec sem isClear l s op).1 (keepMarkExec sem isClear l s op).2.1 := by
+  unfold keepMarkExec
+  simp only
+  by_cases hb : (isClear op && sem.created l && !sem.created (sem.exec l s op).1) = true
+  · rw [if_pos hb]; exact h.mark_R _ _ (h.exec_R l s op hR)
+  · rw [if_neg hb]; exact h.exec_R l s op hR
+
+theorem keepMarkExec_eq (h : ReloadOK sem) (isClear : sem.Op → Bool) (l l' : sem.L) (s : sem.S) (op : sem.Op)
+    (hR : h.R l s) (hR' : h.R l' s) :
+    (keepMarkExec sem isClear l s op).2 = (keepMarkExec sem isClear l' s op).2 := by
+  have he := h.exec_eq l l' s op hR hR'
+  have hc := h.created_eq l l' s hR hR'
+  have hs : (sem.exec l s op).2.1 = (sem.exec l' s op).2.1 := congrArg Prod.fst he
+  have hr : (sem.exec l s op).2.2 = (sem.exec l' s op).2.2 := congrArg Prod.snd he
+  have hc2 : sem.created (sem.exec l s op).1 = sem.created (sem.exec l' s op).1 :=
+    h.created_eq _ _ _ (h.exec_R l s op hR) (hs ▸ h.exec_R l' s op hR')
+  have hm : (sem.mark (sem.exec l s op).1 (sem.exec l s op).2.1).2 = (sem.mark (sem.exec l' s op).1 (sem.exec l' s op).2.1).2 := by
+    rw [← hs]; exact h.mark_eq _ _ _ (h.exec_R l s op hR) (hs ▸ h.exec_R l' s op hR')
+  unfold keepMarkExec
+  simp only
+  rw [← hc, ← hc2]
+  by_cases hb : (isClear op && sem.created l && !sem.created (sem.exec l s op).1) = true
+  · rw [if_pos hb, if_pos hb]; simp only [hm, hr]
+  · rw [if_neg hb, if_neg hb]; exact he
+
+theorem keepMarkExec_keeps (isClear : sem.Op → Bool) (hmc : ∀ l s, sem.created (sem.mark l s).1 = true)
+    (op : sem.Op) (hop : isClear op = true) (l : sem.L) (s : sem.S) (hl : sem.created l = true) :
+    sem.created (keepMarkExec sem isClear l s op).1 = true := by
+  unfold keepMarkExec
+  simp only
+  by_cases hb : (isClear op && sem.created l && !sem.created (sem.exec l s op).1) = true
+  · rw [if_pos hb]; exact hmc _ _
+  · rw [if_neg hb]
+    simp [hop, hl] at hb
+    exact hb
+
+/-- if reloading is the identity on observations for `sem`, it is for `keepMark sem isClear` (same relation) -/
+def keepMark_reloadOK (h : ReloadOK sem) (isClear : sem.Op → Bool) : ReloadOK (keepMark sem isClear) where
+  R := h.R
+  load_R := h.load_R
+  exec_R := fun l s op hR => keepMarkExec_R h isClear l s op hR
+  exec_eq := fun l l' s op hR hR' => keepMarkExec_eq h isClear l l' s op hR hR'
+  created_eq := h.created_eq
+  mark_R := h.mark_R
+  mark_eq := h.mark_eq
+  mark_created := h.mark_created
+
+/-- the operations carried out the way `ClearLocation` does it never erase the marker -/
+theorem keepMark_keeps (sem : LocSem) (isClear : sem.Op → Bool) (hmc : ∀ l s, sem.created (sem.mark l s).1 = true)
+    (op : sem.Op) (hop : isClear op = true) : KeepsMarker (keepMark sem isClear) op :=
+  fun l s hl => keepMarkExec_keeps isClear hmc op hop l s hl
+
 end seq
 
-/-! ## the concurrent protocol: single load for window-free schedules -/
+/-! ## the concurrent protocol: holders are counted, the instance in use is never dropped -/
 
 section conc
 variable {sem : LocSem}
@@ -617,188 +830,1243 @@ theorem lt_of_get_some {α : Type} (l : List α) (i : Nat) (a : α) (h : l[i]? =
   · exact h1
   · rw [List.getElem?_eq_none h1] at h; cases h
 
-/-- the protocol state while N threads open the same name `n` (each is `GetLocation n`) -/
-inductive Phase (n : String) (c : CSt sem) : Prop where
-  | fresh : kget c.table n = none → c.loads = [] → c.insts = [] →
-      (∀ (t : Nat) (pc : PC sem), c.pcs[t]? = some pc → pc = PC.start (Req.peek n)) → Phase n c
-  | window (e u : Nat) (ent : HEntry) : kget c.table n = some e → c.ents[e]? = some ent → ent.inst = none →
-      c.loads = [] → c.insts = [] → c.pcs[u]? = some (PC.get (Req.peek n) e) →
-      (∀ (t : Nat) (pc : PC sem), t ≠ u → c.pcs[t]? = some pc → pc = PC.start (Req.peek n)) → Phase n c
-  | loaded (e : Nat) (ent : HEntry) : kget c.table n = some e → c.ents[e]? = some ent → ent.inst = some 0 →
-      c.loads = [n] → c.insts.length = 1 →
-      (∀ (t : Nat) (pc : PC sem), c.pcs[t]? = some pc → pc = PC.start (Req.peek n) ∨ pc = PC.cleanup (Req.peek n) e (some 0) ∨
-          pc = PC.opened (Req.peek n) (some 0) ∨ pc = PC.done (some 0) Out.peeked) → Phase n c
-
-theorem pcs_after_set (c : CSt sem) (tid t : Nat) (pc0 pc pc' : PC sem) (h0 : c.pcs[tid]? = some pc0)
-    (h : (setNth c.pcs tid pc')[t]? = some pc) : (t = tid ∧ pc = pc') ∨ (t ≠ tid ∧ c.pcs[t]? = some pc) := by
-  by_cases ht : t = tid
+theorem get_after_set {α : Type} (l : List α) (i t : Nat) (a0 a x : α) (h0 : l[i]? = some a0)
+    (h : (setNth l i a)[t]? = some x) : (t = i ∧ x = a) ∨ (t ≠ i ∧ l[t]? = some x) := by
+  by_cases ht : t = i
   · subst ht
     rw [setNth_get_same _ _ _ (lt_of_get_some _ _ _ h0)] at h
     cases h; exact Or.inl ⟨rfl, rfl⟩
   · rw [setNth_get_other _ _ _ _ ht] at h; exact Or.inr ⟨ht, h⟩
 
-theorem phase_step (cfg : Cfg) (hinst : installs cfg = true) (n : String) (c : CSt sem) (tid : Nat) (now : Int)
-    (hp : Phase n c) (hw : ∀ u, inWindow c u = true → u = tid) : Phase n (cstep cfg c tid now) := by
+theorem get_append_left {α : Type} (l : List α) (a x : α) (j : Nat) (h : l[j]? = some x) : (l ++ [a])[j]? = some x := by
+  rw [List.getElem?_append_left (lt_of_get_some _ _ _ h)]; exact h
+
+theorem get_append_new {α : Type} (l : List α) (a : α) : (l ++ [a])[l.length]? = some a := by
+  simp
+
+/-- the name a thread has opened and not released yet (whether or not the open succeeded) -/
+def pcHolds (pc : PC sem) (n : String) : Bool :=
+  match pc with
+  | .opened r _ => decide (r.name = n)
+  | .releasing m _ _ => decide (m = n)
+  | _ => false
+
+/-- the instance a thread holds -/
+def pcInst (pc : PC sem) : Option (String × Nat) :=
+  match pc with
+  | .opened r i => some (r.name, i)
+  | .releasing n (some i) _ => some (n, i)
+  | _ => none
+
+/-- number of threads between their `Open` and their `Release` of `n` -/
+def cnt (n : String) : List (PC sem) → Nat
+  | [] => 0
+  | pc :: r => (if pcHolds pc n then 1 else 0) + cnt n r
+
+def entPending (table : List (String × HEntry)) (n : String) : Nat :=
+  match kget table n with
+  | some e => e.pending
+  | none => 0
+
+theorem holdsInst_eq (c : CSt sem) (t : Nat) :
+    holdsInst c t = (match c.pcs[t]? with | some pc => pcInst pc | none => none) := by
+  unfold holdsInst
+  cases h : c.pcs[t]? with
+  | none => rfl
+  | some pc =>
+    cases pc with
+    | start r => rfl
+    | opened r i => rfl
+    | releasing n inst out => cases inst <;> rfl
+    | done i o => rfl
+
+theorem pcInst_holds (pc : PC sem) (n : String) (i : Nat) (h : pcInst pc = some (n, i)) : pcHolds pc n = true := by
+  cases pc with
+  | start r => simp [pcInst] at h
+  | opened r j => simp [pcInst] at h; simp [pcHolds, h.1]
+  | releasing m inst out =>
+    cases inst with
+    | none => simp [pcInst] at h
+    | some j => simp [pcInst] at h; simp [pcHolds, h.1]
+  | done j o => simp [pcInst] at h
+
+theorem cnt_setNth (n : String) : ∀ (l : List (PC sem)) (i : Nat) (old new : PC sem), l[i]? = some old →
+    cnt n (setNth l i new) + (if pcHolds old n then 1 else 0) = cnt n l + (if pcHolds new n then 1 else 0) := by
+  intro l
+  induction l with
+  | nil => intro i old new h; simp at h
+  | cons x xs ih =>
+    intro i old new h
+    cases i with
+    | zero =>
+      simp at h; subst h
+      simp only [setNth, cnt]; omega
+    | succ i =>
+      simp at h
+      have := ih i old new h
+      simp only [setNth, cnt]; omega
+
+theorem cnt_pos (n : String) : ∀ (l : List (PC sem)) (t : Nat) (pc : PC sem), l[t]? = some pc → pcHolds pc n = true → 0 < cnt n l := by
+  intro l
+  induction l with
+  | nil => intro t pc h; simp at h
+  | cons x xs ih =>
+    intro t pc h hp
+    cases t with
+    | zero => simp at h; subst h; simp only [cnt, hp, if_true]; omega
+    | succ t =>
+      simp at h
+      have := ih t pc h hp
+      simp only [cnt]; omega
+
+theorem entPending_kset_same (table : List (String × HEntry)) (n : String) (e : HEntry) :
+    entPending (kset table n e) n = e.pending := by
+  simp [entPending, kget_kset_same]
+
+theorem entPending_kdel_same (table : List (String × HEntry)) (n : String) : entPending (kdel table n) n = 0 := by
+  simp [entPending, kget_kdel_same]
+
+/-- the protocol invariant: every entry counts its holders, what a thread holds is what the table has -/
+structure PInv (c : CSt sem) : Prop where
+  count : ∀ n, entPending c.table n = cnt n c.pcs
+  held : ∀ (t : Nat) (pc : PC sem) (n : String) (i : Nat), c.pcs[t]? = some pc → pcInst pc = some (n, i) →
+    ∃ e, kget c.table n = some e ∧ e.inst = some i
+  valid : ∀ n e i, kget c.table n = some e → e.inst = some i → ∃ l, c.insts[i]? = some (n, l)
+
+/-- one step of thread `tid` that works on the name `n0`: what has to be shown for the invariant to survive -/
+theorem pinv_step (c c' : CSt sem) (tid : Nat) (pc0 pc' : PC sem) (n0 : String)
+    (hI : PInv c) (hpc : c.pcs[tid]? = some pc0) (hp : c'.pcs = setNth c.pcs tid pc')
+    (hother : ∀ m, m ≠ n0 → kget c'.table m = kget c.table m)
+    (hpc0 : ∀ m, m ≠ n0 → pcHolds pc0 m = false) (hpc' : ∀ m, m ≠ n0 → pcHolds pc' m = false)
+    (hcnt : entPending c'.table n0 + (if pcHolds pc0 n0 then 1 else 0) = entPending c.table n0 + (if pcHolds pc' n0 then 1 else 0))
+    (hkeep : ∀ e i, kget c.table n0 = some e → e.inst = some i →
+        (∃ e', kget c'.table n0 = some e' ∧ e'.inst = some i) ∨ entPending c'.table n0 = 0)
+    (hnew : ∀ n i, pcInst pc' = some (n, i) → ∃ e', kget c'.table n = some e' ∧ e'.inst = some i)
+    (hinsts : ∀ (j : Nat) (nm : String) (l : sem.L), c.insts[j]? = some (nm, l) → ∃ l', c'.insts[j]? = some (nm, l'))
+    (hval0 : ∀ e i, kget c'.table n0 = some e → e.inst = some i → ∃ l, c'.insts[i]? = some (n0, l)) :
+    PInv c' := by
+  have hcount : ∀ n, entPending c'.table n = cnt n c'.pcs := by
+    intro n
+    rw [hp]
+    have hs := cnt_setNth n c.pcs tid pc0 pc' hpc
+    have hold := hI.count n
+    by_cases hn : n = n0
+    · subst hn; omega
+    · have e1 : entPending c'.table n = entPending c.table n := by simp only [entPending, hother n hn]
+      rw [hpc0 n hn, hpc' n hn] at hs
+      simp at hs
+      omega
+  refine ⟨hcount, ?_, ?_⟩
+  · intro t pc n i hget hinst
+    rw [hp] at hget
+    rcases get_after_set c.pcs tid t pc0 pc' pc hpc hget with ⟨_, h2⟩ | ⟨_, h2⟩
+    · subst h2; exact hnew n i hinst
+    · obtain ⟨e, he, hei⟩ := hI.held t pc n i h2 hinst
+      by_cases hn : n = n0
+      · subst hn
+        rcases hkeep e i he hei with h | h
+        · exact h
+        · have hpos := cnt_pos n c'.pcs t pc (by rw [hp]; exact hget) (pcInst_holds pc n i hinst)
+          have := hcount n
+          omega
+      · exact ⟨e, by rw [hother n hn]; exact he, hei⟩
+  · intro n e i he hei
+    by_cases hn : n = n0
+    · subst hn; exact hval0 e i he hei
+    · rw [hother n hn] at he
+      obtain ⟨l, hl⟩ := hI.valid n e i he hei
+      exact hinsts i n l hl
+
+
+/-! ### what the three steps do, case by case -/
+
+/-- where the entry that `Open` loads into comes from: an entry without a Location that is still held (one more
+holder), or a new one -/
+def LoadOrigin (cfg : Cfg) (c : CSt sem) (r : Req sem) (now : Int) (e : HEntry) (installed : Bool) : Prop :=
+  (∃ e0, kget c.table r.name = some e0 ∧ e0.inst = none ∧ e = { e0 with pending := e0.pending + 1 } ∧ installed = true) ∨
+  (kget c.table r.name = none ∧ e = { expires := newExpires cfg now, pending := 1, inst := none } ∧ installed = installs cfg)
+
+inductive OpenRes (cfg : Cfg) (c : CSt sem) (r : Req sem) (now : Int) : CSt sem × PC sem → Prop where
+  | stuck : OpenRes cfg c r now (c, .start r)
+  | served (e0 : HEntry) (i : Nat) (nm : String) (l : sem.L) :
+      kget c.table r.name = some e0 → e0.inst = some i → c.insts[i]? = some (nm, l) →
+      (reqCheck r && cfg.checkExistence && !sem.created l) = false →
+      OpenRes cfg c r now ({ c with table := kset c.table r.name { e0 with pending := e0.pending + 1 } }, .opened r i)
+  | refused (e0 : HEntry) (i : Nat) (nm : String) (l : sem.L) :
+      kget c.table r.name = some e0 → e0.inst = some i → c.insts[i]? = some (nm, l) →
+      (reqCheck r && cfg.checkExistence && !sem.created l) = true →
+      OpenRes cfg c r now ({ c with table := kset c.table r.name { e0 with pending := e0.pending + 1 },
+                                    log := c.log ++ [(r, .notFound)] }, .releasing r.name none .notFound)
+  | loaded (e : HEntry) (installed : Bool) :
+      LoadOrigin cfg c r now e installed →
+      (reqCheck r && cfg.checkExistence && !sem.created (sem.load now (storeOf c.store r.name))) = false →
+      OpenRes cfg c r now
+        ({ c with loads := c.loads ++ [r.name], insts := c.insts ++ [(r.name, sem.load now (storeOf c.store r.name))],
+                  table := (if installed then kset c.table r.name
+                      (loadedEntry e c.insts.length now (sem.cacheTTL (sem.load now (storeOf c.store r.name)))) else c.table) },
+         .opened r c.insts.length)
+  | loadFailed (e : HEntry) (installed : Bool) :
+      LoadOrigin cfg c r now e installed →
+      (reqCheck r && cfg.checkExistence && !sem.created (sem.load now (storeOf c.store r.name))) = true →
+      OpenRes cfg c r now
+        ({ c with loads := c.loads ++ [r.name], table := (if installed then kset c.table r.name e else c.table),
+                  log := c.log ++ [(r, .notFound)] }, .releasing r.name none .notFound)
+
+theorem loadC_res (cfg : Cfg) (c : CSt sem) (r : Req sem) (now : Int) (e : HEntry) (installed : Bool)
+    (ho : LoadOrigin cfg c r now e installed) : OpenRes cfg c r now (loadC cfg c r e installed now) := by
+  unfold loadC
+  simp only
+  by_cases hb : (reqCheck r && cfg.checkExistence && !sem.created (sem.load now (storeOf c.store r.name))) = true
+  · rw [if_pos hb]; exact OpenRes.loadFailed e installed ho hb
+  · rw [if_neg hb]; exact OpenRes.loaded e installed ho (by simpa using hb)
+
+theorem openC_res (cfg : Cfg) (c : CSt sem) (r : Req sem) (now : Int) : OpenRes cfg c r now (openC cfg c r now) := by
+  unfold openC
+  cases hk : kget c.table r.name with
+  | none => simp only; exact loadC_res cfg c r now _ _ (Or.inr ⟨hk, rfl, rfl⟩)
+  | some e0 =>
+    simp only
+    split
+    next i hi =>
+      unfold servedC
+      cases hg : c.insts[i]? with
+      | none => exact OpenRes.stuck
+      | some p =>
+        obtain ⟨nm, l⟩ := p
+        simp only
+        by_cases hb : (reqCheck r && cfg.checkExistence && !sem.created l) = true
+        · rw [if_pos hb]; exact OpenRes.refused e0 i nm l hk hi hg hb
+        · rw [if_neg hb]; exact OpenRes.served e0 i nm l hk hi hg (by simpa using hb)
+    next hi => exact loadC_res cfg c r now _ _ (Or.inl ⟨e0, hk, hi, rfl, rfl⟩)
+
+inductive CallRes (c : CSt sem) (r : Req sem) (i : Nat) : CSt sem × PC sem → Prop where
+  | stuck : c.insts[i]? = none → CallRes c r i (c, .opened r i)
+  | api (n : String) (op : sem.Op) (nm : String) (l : sem.L) : r = .api n op → c.insts[i]? = some (nm, l) →
+      CallRes c r i
+        ({ c with insts := setNth c.insts i (n, (sem.exec l (storeOf c.store n) op).1),
+                  store := kset c.store n (sem.exec l (storeOf c.store n) op).2.1,
+                  log := c.log ++ [(r, .ok (sem.exec l (storeOf c.store n) op).2.2)] },
+         .releasing n (some i) (.ok (sem.exec l (storeOf c.store n) op).2.2))
+  | createOld (n : String) (nm : String) (l : sem.L) : r = .create n → c.insts[i]? = some (nm, l) → sem.created l = true →
+      CallRes c r i ({ c with log := c.log ++ [(r, .created false)] }, .releasing n (some i) (.created false))
+  | createNew (n : String) (nm : String) (l : sem.L) : r = .create n → c.insts[i]? = some (nm, l) → sem.created l = false →
+      CallRes c r i
+        ({ c with insts := setNth c.insts i (n, (sem.mark l (storeOf c.store n)).1),
+                  store := kset c.store n (sem.mark l (storeOf c.store n)).2,
+                  log := c.log ++ [(r, .created true)] },
+         .releasing n (some i) (.created true))
+  | peek (n : String) (nm : String) (l : sem.L) : r = .peek n → c.insts[i]? = some (nm, l) →
+      CallRes c r i ({ c with log := c.log ++ [(r, .peeked)] }, .releasing n (some i) .peeked)
+
+theorem callC_res (c : CSt sem) (r : Req sem) (i : Nat) : CallRes c r i (callC c r i) := by
+  unfold callC
+  cases hg : c.insts[i]? with
+  | none => exact CallRes.stuck hg
+  | some p =>
+    obtain ⟨nm, l⟩ := p
+    simp only
+    cases r with
+    | api n op => exact CallRes.api n op nm l rfl hg
+    | create n =>
+      simp only
+      cases hc : sem.created l with
+      | true => simp only [if_true]; exact CallRes.createOld n nm l rfl hg hc
+      | false => simp only [Bool.false_eq_true, if_false]; exact CallRes.createNew n nm l rfl hg hc
+    | peek n => exact CallRes.peek n nm l rfl hg
+
+/-- what a call leaves alone: the table and the threads; the instances keep their names -/
+theorem callRes_shape (c : CSt sem) (r : Req sem) (i : Nat) (x : CSt sem × PC sem) (h : CallRes c r i x) :
+    x = (c, .opened r i) ∨
+    (∃ out, x.2 = .releasing r.name (some i) out) ∧ x.1.table = c.table ∧ x.1.pcs = c.pcs ∧
+      (x.1.insts = c.insts ∨ ∃ l2, x.1.insts = setNth c.insts i (r.name, l2)) := by
+  cases h with
+  | stuck _ => exact Or.inl rfl
+  | api n op nm l hr hg => subst hr; exact Or.inr ⟨⟨_, rfl⟩, rfl, rfl, Or.inr ⟨_, rfl⟩⟩
+  | createOld n nm l hr hg hc => subst hr; exact Or.inr ⟨⟨_, rfl⟩, rfl, rfl, Or.inl rfl⟩
+  | createNew n nm l hr hg hc => subst hr; exact Or.inr ⟨⟨_, rfl⟩, rfl, rfl, Or.inr ⟨_, rfl⟩⟩
+  | peek n nm l hr hg => subst hr; exact Or.inr ⟨⟨_, rfl⟩, rfl, rfl, Or.inl rfl⟩
+
+theorem pcHolds_start (r : Req sem) (m : String) : pcHolds (PC.start r) m = false := rfl
+theorem pcHolds_done (i : Option Nat) (o : Out sem) (m : String) : pcHolds (PC.done i o) m = false := rfl
+theorem pcHolds_opened (r : Req sem) (i : Nat) (m : String) : pcHolds (PC.opened r i) m = decide (r.name = m) := rfl
+theorem pcHolds_releasing (n : String) (i : Option Nat) (o : Out sem) (m : String) :
+    pcHolds (PC.releasing n i o) m = decide (n = m) := rfl
+
+theorem setNth_get_name (insts : List (String × sem.L)) (i : Nat) (n : String) (l2 l0 : sem.L) (h0 : insts[i]? = some (n, l0))
+    (j : Nat) (nm : String) (l : sem.L) (h : insts[j]? = some (nm, l)) : ∃ l', (setNth insts i (n, l2))[j]? = some (nm, l') := by
+  by_cases hj : j = i
+  · subst hj
+    rw [h0] at h; cases h
+    exact ⟨l2, setNth_get_same _ _ _ (lt_of_get_some _ _ _ h0)⟩
+  · exact ⟨l, by rw [setNth_get_other _ _ _ _ hj]; exact h⟩
+
+/-- the protocol invariant survives every step of every thread -/
+theorem pinv_cstep (cfg : Cfg) (hinst : installs cfg = true) (c : CSt sem) (tid : Nat) (now : Int) (hI : PInv c) :
+    PInv (cstep cfg c tid now) := by
+  unfold cstep
   cases hpc : c.pcs[tid]? with
-  | none => simp only [cstep, hpc]; exact hp
+  | none => exact hI
   | some pc0 =>
-    cases hp with
-    | fresh htab hloads hinsts hpcs =>
-      have := hpcs tid pc0 hpc
-      subst this
-      have hlen : c.ents.length < (c.ents ++ [({ expires := newExpires cfg now, pending := false, inst := none } : HEntry)]).length := by simp
-      have hstep : cstep cfg c tid now =
-          { c with ents := c.ents ++ [{ expires := newExpires cfg now, pending := false, inst := none }],
-                   table := kset c.table n c.ents.length,
-                   pcs := setNth c.pcs tid (.get (.peek n) c.ents.length) } := by
-        simp [cstep, hpc, Req.name, htab, hinst]
-      rw [hstep]
-      refine Phase.window c.ents.length tid { expires := newExpires cfg now, pending := false, inst := none } ?_ ?_ rfl hloads hinsts ?_ ?_
-      · exact kget_kset_same _ _ _
-      · simp
-      · exact setNth_get_same _ _ _ (lt_of_get_some _ _ _ hpc)
-      · intro t pc ht hget
-        simp only at hget
-        rw [setNth_get_other _ _ _ _ ht] at hget
-        exact hpcs t pc hget
-    | window e u ent htab hent hnone hloads hinsts hu hothers =>
-      have htid : u = tid := hw u (by simp [inWindow, hu])
-      subst htid
-      rw [hu] at hpc; cases hpc
-      have hstep : cstep cfg c u now =
-          { c with loads := [n], insts := [(n, sem.load now (storeOf c.store n))],
-                   ents := setNth c.ents e (loadedEntry ent 0 now (sem.cacheTTL (sem.load now (storeOf c.store n)))),
-                   pcs := setNth c.pcs u (.cleanup (.peek n) e (some 0)) } := by
-        simp [cstep, hu, Req.name, hent, hnone, reqCheck, hloads, hinsts]
-      rw [hstep]
-      refine Phase.loaded e _ htab (setNth_get_same _ _ _ (lt_of_get_some _ _ _ hent)) rfl rfl rfl ?_
-      intro t pc hget
-      simp only at hget
-      rcases pcs_after_set c u t _ pc _ hu hget with ⟨_, h2⟩ | ⟨h1, h2⟩
-      · exact Or.inr (Or.inl h2)
-      · exact Or.inl (hothers t pc h1 h2)
-    | loaded e ent htab hent hsome hloads hinsts hpcs =>
-      have hlt := lt_of_get_some _ _ _ hent
-      rcases hpcs tid pc0 hpc with h | h | h | h
-      · subst h
-        have hstep : cstep cfg c tid now =
-            { c with ents := setNth c.ents e { ent with pending := true },
-                     pcs := setNth c.pcs tid (.opened (.peek n) (some 0)) } := by
-          simp [cstep, hpc, Req.name, htab, hent, hsome]
-        rw [hstep]
-        refine Phase.loaded e { ent with pending := true } htab (setNth_get_same _ _ _ hlt) hsome hloads hinsts ?_
-        intro t pc hget
-        simp only at hget
-        rcases pcs_after_set c tid t _ pc _ hpc hget with ⟨_, h2⟩ | ⟨_, h2⟩
-        · exact Or.inr (Or.inr (Or.inl h2))
-        · exact hpcs t pc h2
-      · subst h
-        have hstep : cstep cfg c tid now = { c with pcs := setNth c.pcs tid (.opened (.peek n) (some 0)) } := by
-          simp [cstep, hpc, hent, hsome]
-        rw [hstep]
-        refine Phase.loaded e ent htab hent hsome hloads hinsts ?_
-        intro t pc hget
-        simp only at hget
-        rcases pcs_after_set c tid t _ pc _ hpc hget with ⟨_, h2⟩ | ⟨_, h2⟩
-        · exact Or.inr (Or.inr (Or.inl h2))
-        · exact hpcs t pc h2
-      · subst h
-        have hstep : cstep cfg c tid now = { c with pcs := setNth c.pcs tid (.done (some 0) .peeked) } := by
-          simp [cstep, hpc]
-        rw [hstep]
-        refine Phase.loaded e ent htab hent hsome hloads hinsts ?_
-        intro t pc hget
-        simp only at hget
-        rcases pcs_after_set c tid t _ pc _ hpc hget with ⟨_, h2⟩ | ⟨_, h2⟩
-        · exact Or.inr (Or.inr (Or.inr h2))
-        · exact hpcs t pc h2
-      · subst h
-        have hstep : cstep cfg c tid now = c := by simp [cstep, hpc]
-        rw [hstep]
-        exact Phase.loaded e ent htab hent hsome hloads hinsts hpcs
+    simp only
+    cases pc0 with
+    | done i o => exact hI
+    | start r =>
+      simp only
+      have hres := openC_res cfg c r now
+      generalize openC cfg c r now = x at hres
+      cases hres with
+      | stuck =>
+        have : ({ c with pcs := setNth c.pcs tid (PC.start r) } : CSt sem) = c := by
+          have : setNth c.pcs tid (PC.start r) = c.pcs := by
+            apply List.ext_getElem?
+            intro t
+            by_cases ht : t = tid
+            · subst ht; rw [setNth_get_same _ _ _ (lt_of_get_some _ _ _ hpc)]; exact hpc.symm
+            · exact setNth_get_other _ _ _ _ ht
+          rw [this]
+        simp only
+        rw [this]; exact hI
+      | served e0 i nm l hk hi hg hb =>
+        refine pinv_step c _ tid (.start r) (.opened r i) r.name hI hpc rfl ?_ ?_ ?_ ?_ ?_ ?_ ?_ ?_
+        · intro m hm; exact kget_kset_other _ _ _ _ hm
+        · intro m _; rfl
+        · intro m hm; simp [pcHolds_opened, Ne.symm hm]
+        · simp only [entPending_kset_same, pcHolds_start, pcHolds_opened]
+          simp [entPending, hk]
+        · intro e j he hj; rw [hk] at he; cases he
+          exact Or.inl ⟨_, kget_kset_same _ _ _, hj⟩
+        · intro n j hnj; simp [pcInst] at hnj
+          obtain ⟨h1, h2⟩ := hnj; subst h1; subst h2
+          exact ⟨_, kget_kset_same _ _ _, hi⟩
+        · intro j nm' l' h; exact ⟨l', h⟩
+        · intro e j he hj
+          simp only at he; rw [kget_kset_same] at he; cases he
+          exact hI.valid r.name e0 j hk hj
+      | refused e0 i nm l hk hi hg hb =>
+        refine pinv_step c _ tid (.start r) (.releasing r.name none .notFound) r.name hI hpc rfl ?_ ?_ ?_ ?_ ?_ ?_ ?_ ?_
+        · intro m hm; exact kget_kset_other _ _ _ _ hm
+        · intro m _; rfl
+        · intro m hm; simp [pcHolds_releasing, Ne.symm hm]
+        · simp only [entPending_kset_same, pcHolds_start, pcHolds_releasing]
+          simp [entPending, hk]
+        · intro e j he hj; rw [hk] at he; cases he
+          exact Or.inl ⟨_, kget_kset_same _ _ _, hj⟩
+        · intro n j hnj; simp [pcInst] at hnj
+        · intro j nm' l' h; exact ⟨l', h⟩
+        · intro e j he hj
+          simp only at he; rw [kget_kset_same] at he; cases he
+          exact hI.valid r.name e0 j hk hj
+      | loaded e installed ho hb =>
+        have hinst' : installed = true := by
+          rcases ho with ⟨_, _, _, _, h⟩ | ⟨_, _, h⟩
+          · exact h
+          · rw [h]; exact hinst
+        subst hinst'
+        have hpend : e.pending = entPending c.table r.name + 1 ∧ e.inst = none := by
+          rcases ho with ⟨e0, h1, h2, h3, _⟩ | ⟨h1, h3, _⟩
+          · subst h3; simp [entPending, h1, h2]
+          · subst h3; simp [entPending, h1]
+        have hnoinst : ∀ e1 j, kget c.table r.name = some e1 → e1.inst = some j → False := by
+          intro e1 j h1 h2
+          rcases ho with ⟨e0, h3, h4, _, _⟩ | ⟨h3, _, _⟩
+          · rw [h3] at h1; cases h1; rw [h4] at h2; cases h2
+          · rw [h3] at h1; cases h1
+        refine pinv_step c _ tid (.start r) (.opened r c.insts.length) r.name hI hpc rfl ?_ ?_ ?_ ?_ ?_ ?_ ?_ ?_
+        · intro m hm; simp only [if_true]; exact kget_kset_other _ _ _ _ hm
+        · intro m _; rfl
+        · intro m hm; simp [pcHolds_opened, Ne.symm hm]
+        · simp only [if_true, entPending_kset_same, pcHolds_start, pcHolds_opened, loadedEntry]
+          simp [hpend.1]
+        · intro e1 j he hj; exact absurd (hnoinst e1 j he hj) id
+        · intro n j hnj; simp [pcInst] at hnj
+          obtain ⟨h1, h2⟩ := hnj; subst h1; subst h2
+          exact ⟨_, by simp only [if_true]; exact kget_kset_same _ _ _, rfl⟩
+        · intro j nm' l' h; exact ⟨l', get_append_left _ _ _ _ h⟩
+        · intro e1 j he hj
+          simp only [if_true] at he; rw [kget_kset_same] at he; cases he
+          simp [loadedEntry] at hj; subst hj
+          exact ⟨_, get_append_new _ _⟩
+      | loadFailed e installed ho hb =>
+        have hinst' : installed = true := by
+          rcases ho with ⟨_, _, _, _, h⟩ | ⟨_, _, h⟩
+          · exact h
+          · rw [h]; exact hinst
+        subst hinst'
+        have hpend : e.pending = entPending c.table r.name + 1 ∧ e.inst = none := by
+          rcases ho with ⟨e0, h1, h2, h3, _⟩ | ⟨h1, h3, _⟩
+          · subst h3; simp [entPending, h1, h2]
+          · subst h3; simp [entPending, h1]
+        have hnoinst : ∀ e1 j, kget c.table r.name = some e1 → e1.inst = some j → False := by
+          intro e1 j h1 h2
+          rcases ho with ⟨e0, h3, h4, _, _⟩ | ⟨h3, _, _⟩
+          · rw [h3] at h1; cases h1; rw [h4] at h2; cases h2
+          · rw [h3] at h1; cases h1
+        refine pinv_step c _ tid (.start r) (.releasing r.name none .notFound) r.name hI hpc rfl ?_ ?_ ?_ ?_ ?_ ?_ ?_ ?_
+        · intro m hm; simp only [if_true]; exact kget_kset_other _ _ _ _ hm
+        · intro m _; rfl
+        · intro m hm; simp [pcHolds_releasing, Ne.symm hm]
+        · simp only [if_true, entPending_kset_same, pcHolds_start, pcHolds_releasing]
+          simp [hpend.1]
+        · intro e1 j he hj; exact absurd (hnoinst e1 j he hj) id
+        · intro n j hnj; simp [pcInst] at hnj
+        · intro j nm' l' h; exact ⟨l', h⟩
+        · intro e1 j he hj
+          simp only [if_true] at he; rw [kget_kset_same] at he; cases he
+          rw [hpend.2] at hj; cases hj
+    | opened r i =>
+      simp only
+      have hres := callRes_shape c r i _ (callC_res c r i)
+      generalize callC c r i = x at hres
+      rcases hres with hx | ⟨⟨out, hout⟩, htab, hpcs, hins⟩
+      · subst hx
+        have : ({ c with pcs := setNth c.pcs tid (PC.opened r i) } : CSt sem) = c := by
+          have : setNth c.pcs tid (PC.opened r i) = c.pcs := by
+            apply List.ext_getElem?
+            intro t
+            by_cases ht : t = tid
+            · subst ht; rw [setNth_get_same _ _ _ (lt_of_get_some _ _ _ hpc)]; exact hpc.symm
+            · exact setNth_get_other _ _ _ _ ht
+          rw [this]
+        simp only
+        rw [this]; exact hI
+      · obtain ⟨e, he, hei⟩ := hI.held tid _ r.name i hpc rfl
+        obtain ⟨l0, hl0⟩ := hI.valid r.name e i he hei
+        refine pinv_step c _ tid (.opened r i) x.2 r.name hI hpc (by simp only [hpcs]) ?_ ?_ ?_ ?_ ?_ ?_ ?_ ?_
+        · intro m _; simp only [htab]
+        · intro m hm; simp [pcHolds_opened, Ne.symm hm]
+        · intro m hm; rw [hout]; simp [pcHolds_releasing, Ne.symm hm]
+        · simp only [htab]; rw [hout]; simp [pcHolds_opened, pcHolds_releasing]
+        · intro e1 j h1 h2; exact Or.inl ⟨e1, by simp only [htab]; exact h1, h2⟩
+        · intro n j hnj; rw [hout] at hnj; simp [pcInst] at hnj
+          obtain ⟨h1, h2⟩ := hnj; subst h1; subst h2
+          exact ⟨e, by simp only [htab]; exact he, hei⟩
+        · intro j nm' l' h
+          rcases hins with hins | ⟨l2, hins⟩
+          · exact ⟨l', by simp only [hins]; exact h⟩
+          · simp only [hins]; exact setNth_get_name c.insts i r.name l2 l0 hl0 j nm' l' h
+        · intro e1 j h1 h2
+          simp only [htab] at h1
+          obtain ⟨l1, hl1⟩ := hI.valid r.name e1 j h1 h2
+          rcases hins with hins | ⟨l2, hins⟩
+          · exact ⟨l1, by simp only [hins]; exact hl1⟩
+          · simp only [hins]; exact setNth_get_name c.insts i r.name l2 l0 hl0 j r.name l1 hl1
+    | releasing n inst out =>
+      simp only
+      have hpos : 0 < cnt n c.pcs := cnt_pos n c.pcs tid _ hpc (by simp [pcHolds_releasing])
+      have hcount := hI.count n
+      unfold relC
+      cases hk : kget c.table n with
+      | none => simp [entPending, hk] at hcount; omega
+      | some e =>
+        have hep : e.pending = cnt n c.pcs := by simpa [entPending, hk] using hcount
+        simp only
+        cases hr : releasedEntry e now with
+        | some e' =>
+          have he' : e' = { e with pending := e.pending - 1 } := by
+            unfold releasedEntry at hr
+            simp only at hr
+            split at hr
+            · cases hr; rfl
+            · cases hr
+          subst he'
+          refine pinv_step c _ tid (.releasing n inst out) (.done inst out) n hI hpc rfl ?_ ?_ ?_ ?_ ?_ ?_ ?_ ?_
+          · intro m hm; exact kget_kset_other _ _ _ _ hm
+          · intro m hm; simp [pcHolds_releasing, Ne.symm hm]
+          · intro m _; rfl
+          · simp only [entPending_kset_same, pcHolds_releasing, pcHolds_done]
+            simp [entPending, hk]; omega
+          · intro e1 j h1 h2; rw [hk] at h1; cases h1
+            exact Or.inl ⟨_, kget_kset_same _ _ _, h2⟩
+          · intro m j hnj; simp [pcInst] at hnj
+          · intro j nm' l' h; exact ⟨l', h⟩
+          · intro e1 j h1 h2
+            simp only at h1; rw [kget_kset_same] at h1; cases h1
+            exact hI.valid n e j hk h2
+        | none =>
+          have hzero : e.pending - 1 = 0 := by
+            unfold releasedEntry at hr
+            simp only at hr
+            split at hr
+            · cases hr
+            · rename_i hcond
+              simp at hcond
+              omega
+          refine pinv_step c _ tid (.releasing n inst out) (.done inst out) n hI hpc rfl ?_ ?_ ?_ ?_ ?_ ?_ ?_ ?_
+          · intro m hm; exact kget_kdel_other _ _ _ hm
+          · intro m hm; simp [pcHolds_releasing, Ne.symm hm]
+          · intro m _; rfl
+          · simp only [entPending_kdel_same, pcHolds_releasing, pcHolds_done]
+            simp [entPending, hk]; omega
+          · intro e1 j h1 h2; exact Or.inr (entPending_kdel_same _ _)
+          · intro m j hnj; simp [pcInst] at hnj
+          · intro j nm' l' h; exact ⟨l', h⟩
+          · intro e1 j h1 h2
+            simp only at h1; rw [kget_kdel_same] at h1; cases h1
 
-theorem window_all (c : CSt sem) (tid : Nat)
-    (h : (List.range c.pcs.length).all (fun u => !inWindow c u || u == tid) = true) :
-    ∀ u, inWindow c u = true → u = tid := by
-  intro u hu
-  have hlt : u < c.pcs.length := by
-    unfold inWindow at hu
-    cases hpc : c.pcs[u]? with
-    | none => simp [hpc] at hu
-    | some pc => exact lt_of_get_some _ _ _ hpc
-  rw [List.all_eq_true] at h
-  have := h u (List.mem_range.mpr hlt)
-  simp [hu] at this
-  exact this
+theorem pinv_init (store : List (String × sem.S)) (reqs : List (Req sem)) : PInv (cinit store reqs : CSt sem) := by
+  have hc : ∀ (n : String) (l : List (Req sem)), cnt n (l.map PC.start) = 0 := by
+    intro n l
+    induction l with
+    | nil => rfl
+    | cons a r ih => simp only [List.map, cnt, pcHolds_start]; simpa using ih
+  refine ⟨?_, ?_, ?_⟩
+  · intro n; simp only [cinit, entPending, kget]; exact (hc n reqs).symm
+  · intro t pc n i h hi
+    simp only [cinit] at h
+    rw [List.getElem?_map] at h
+    cases hr : reqs[t]? with
+    | none => simp [hr] at h
+    | some r => simp [hr] at h; subst h; simp [pcInst] at hi
+  · intro n e i h; simp [cinit, kget] at h
 
-theorem phase_run (cfg : Cfg) (hinst : installs cfg = true) (n : String) :
-    ∀ (sched : List (Nat × Int)) (c : CSt sem), Phase n c → windowFree cfg c sched = true → Phase n (crun cfg c sched) := by
+theorem pinv_crun (cfg : Cfg) (hinst : installs cfg = true) :
+    ∀ (sched : List (Nat × Int)) (c : CSt sem), PInv c → PInv (crun cfg c sched) := by
   intro sched
   induction sched with
-  | nil => intro c hp _; exact hp
+  | nil => intro c h; exact h
   | cons a rest ih =>
-    intro c hp hw
+    intro c h
     obtain ⟨tid, now⟩ := a
-    simp only [windowFree, Bool.and_eq_true] at hw
     simp only [crun]
-    exact ih _ (phase_step cfg hinst n c tid now hp (window_all c tid hw.1)) hw.2
+    exact ih _ (pinv_cstep cfg hinst c tid now h)
 
-theorem phase_init (n : String) (store : List (String × sem.S)) (N : Nat) :
-    Phase n (cinit store (List.replicate N (Req.peek n)) : CSt sem) := by
+
+/-! ### transparency under overlap: the answers, in the order in which they were determined, are those of direct
+operation -/
+
+theorem runD_append (check : Bool) : ∀ (h1 : List (Req sem × Int × Int)) (d : DSt sem) (x : Req sem × Int × Int),
+    runD check d (h1 ++ [x]) =
+      ((reqD check (runD check d h1).1 x.1 x.2.1).1, (runD check d h1).2 ++ [(reqD check (runD check d h1).1 x.1 x.2.1).2]) := by
+  intro h1
+  induction h1 with
+  | nil => intro d x; obtain ⟨r, t1, t2⟩ := x; simp [runD]
+  | cons a rest ih =>
+    intro d x
+    obtain ⟨r, t1, t2⟩ := a
+    simp only [List.cons_append, runD]
+    rw [ih]
+
+/-- the data invariant: cached instances are faithful to the storage, the storage is what direct operation of the
+logged requests produces, a thread that passed the check still sees the marker -/
+structure DInv (h : ReloadOK sem) (check : Bool) (s0 : List (String × sem.S)) (c : CSt sem) (d : DSt sem) : Prop where
+  faithful : ∀ (n : String) (e : HEntry) (i : Nat) (l : sem.L), kget c.table n = some e → e.inst = some i →
+    c.insts[i]? = some (n, l) → h.R l (storeOf c.store n)
+  dir : ∀ n t, (dget d n t).2 = storeOf c.store n ∧ h.R (dget d n t).1 (storeOf c.store n)
+  lin : runD check { base := s0 } (logHist c) = (d, c.log.map (·.2))
+  marked : check = true → ∀ (t : Nat) (r : Req sem) (i : Nat) (l : sem.L), c.pcs[t]? = some (.opened r i) → reqCheck r = true →
+    c.insts[i]? = some (r.name, l) → sem.created l = true
+  keeps : ∀ (t : Nat) (r : Req sem), (c.pcs[t]? = some (.start r) ∨ ∃ i, c.pcs[t]? = some (.opened r i)) → ReqKeeps sem check r
+
+theorem lin_step (check : Bool) (s0 : List (String × sem.S)) (c c' : CSt sem) (d d' : DSt sem) (r : Req sem) (o : Out sem)
+    (hl : runD check { base := s0 } (logHist c) = (d, c.log.map (·.2))) (hlog : c'.log = c.log ++ [(r, o)])
+    (hreq : reqD check d r 0 = (d', o)) :
+    runD check { base := s0 } (logHist c') = (d', c'.log.map (·.2)) := by
+  unfold logHist at hl ⊢
+  rw [hlog, List.map_append, List.map_append]
+  simp only [List.map]
+  rw [runD_append, hl]
+  simp only [hreq]
+
+/-- threads other than `tid` are where they were; `tid` is at `pc'` -/
+theorem pcs_cases (c : CSt sem) (tid t : Nat) (pc0 pc' pc : PC sem) (hpc : c.pcs[tid]? = some pc0)
+    (h : (setNth c.pcs tid pc')[t]? = some pc) : (t = tid ∧ pc = pc') ∨ (t ≠ tid ∧ c.pcs[t]? = some pc) :=
+  get_after_set c.pcs tid t pc0 pc' pc hpc h
+
+theorem setNth_same_eq {α : Type} (l : List α) (i : Nat) (a : α) (h : l[i]? = some a) : setNth l i a = l := by
+  apply List.ext_getElem?
+  intro t
+  by_cases ht : t = i
+  · subst ht; rw [setNth_get_same _ _ _ (lt_of_get_some _ _ _ h)]; exact h.symm
+  · exact setNth_get_other _ _ _ _ ht
+
+theorem reqD_create_old (check : Bool) (d : DSt sem) (n : String) (t : Int) (hc : sem.created (dget d n t).1 = true) :
+    reqD check d (.create n) t = (d, .created false) := by
+  simp only [reqD, hc, if_true]
+
+theorem reqD_create_new (check : Bool) (d : DSt sem) (n : String) (t : Int) (hc : sem.created (dget d n t).1 = false) :
+    reqD check d (.create n) t = ({ d with locs := kset d.locs n (sem.mark (dget d n t).1 (dget d n t).2) }, .created true) := by
+  simp only [reqD, hc]; rfl
+
+/-- the data invariant survives every step (the protocol invariant is what makes the held instance the cached one) -/
+theorem dinv_cstep (h : ReloadOK sem) (cfg : Cfg) (hinst : installs cfg = true) (s0 : List (String × sem.S))
+    (c : CSt sem) (tid : Nat) (now : Int) (d : DSt sem) (hP : PInv c) (hD : DInv h cfg.checkExistence s0 c d) :
+    ∃ d', DInv h cfg.checkExistence s0 (cstep cfg c tid now) d' := by
+  unfold cstep
+  cases hpc : c.pcs[tid]? with
+  | none => exact ⟨d, hD⟩
+  | some pc0 =>
+    simp only
+    cases pc0 with
+    | done i o => exact ⟨d, hD⟩
+    | start r =>
+      simp only
+      have hres := openC_res cfg c r now
+      generalize openC cfg c r now = x at hres
+      cases hres with
+      | stuck =>
+        simp only
+        rw [setNth_same_eq _ _ _ hpc]; exact ⟨d, hD⟩
+      | served e0 i nm l hk hi hg hb =>
+        refine ⟨d, ⟨?_, hD.dir, hD.lin, ?_, ?_⟩⟩
+        · intro n e j l' he hj hl'
+          simp only at he hl'
+          by_cases hn : n = r.name
+          · subst hn; rw [kget_kset_same] at he; cases he
+            exact hD.faithful _ e0 j l' hk hj hl'
+          · rw [kget_kset_other _ _ _ _ hn] at he; exact hD.faithful n e j l' he hj hl'
+        · intro hc t r' i' l' hget hrc hl'
+          simp only at hget hl'
+          rcases pcs_cases c tid t _ _ _ hpc hget with ⟨_, h2⟩ | ⟨_, h2⟩
+          · cases h2
+            rw [hg] at hl'; cases hl'
+            simp [hrc, hc] at hb; exact hb
+          · exact hD.marked hc t r' i' l' h2 hrc hl'
+        · intro t r' hor
+          simp only at hor
+          rcases hor with hget | ⟨i', hget⟩
+          · rcases pcs_cases c tid t _ _ _ hpc hget with ⟨_, h2⟩ | ⟨_, h2⟩
+            · cases h2
+            · exact hD.keeps t r' (Or.inl h2)
+          · rcases pcs_cases c tid t _ _ _ hpc hget with ⟨_, h2⟩ | ⟨_, h2⟩
+            · cases h2; exact hD.keeps tid _ (Or.inl hpc)
+            · exact hD.keeps t r' (Or.inr ⟨i', h2⟩)
+      | refused e0 i nm l hk hi hg hb =>
+        have hb' : reqCheck r = true ∧ cfg.checkExistence = true ∧ sem.created l = false := by
+          simp [Bool.and_eq_true] at hb; exact ⟨hb.1.1, hb.1.2, hb.2⟩
+        obtain ⟨l0, hl0⟩ := hP.valid r.name e0 i hk hi
+        have hnm : nm = r.name ∧ l0 = l := by rw [hg] at hl0; cases hl0; exact ⟨rfl, rfl⟩
+        have hR : h.R l (storeOf c.store r.name) := hD.faithful r.name e0 i l hk hi (by rw [hg, hnm.1])
+        have hreq : reqD cfg.checkExistence d r 0 = (d, .notFound) := by
+          cases r with
+          | api n op =>
+            apply reqD_api_fail
+            have := h.created_eq _ _ _ (hD.dir n 0).2 hR
+            simp [hb'.2.1, this, hb'.2.2]
+          | create n => simp [reqCheck] at hb'
+          | peek n => simp [reqCheck] at hb'
+        refine ⟨d, ⟨?_, hD.dir, lin_step _ s0 c _ d d r .notFound hD.lin rfl hreq, ?_, ?_⟩⟩
+        · intro n e j l' he hj hl'
+          simp only at he hl'
+          by_cases hn : n = r.name
+          · subst hn; rw [kget_kset_same] at he; cases he
+            exact hD.faithful _ e0 j l' hk hj hl'
+          · rw [kget_kset_other _ _ _ _ hn] at he; exact hD.faithful n e j l' he hj hl'
+        · intro hc t r' i' l' hget hrc hl'
+          simp only at hget hl'
+          rcases pcs_cases c tid t _ _ _ hpc hget with ⟨_, h2⟩ | ⟨_, h2⟩
+          · cases h2
+          · exact hD.marked hc t r' i' l' h2 hrc hl'
+        · intro t r' hor
+          simp only at hor
+          rcases hor with hget | ⟨i', hget⟩
+          · rcases pcs_cases c tid t _ _ _ hpc hget with ⟨_, h2⟩ | ⟨_, h2⟩
+            · cases h2
+            · exact hD.keeps t r' (Or.inl h2)
+          · rcases pcs_cases c tid t _ _ _ hpc hget with ⟨_, h2⟩ | ⟨_, h2⟩
+            · cases h2
+            · exact hD.keeps t r' (Or.inr ⟨i', h2⟩)
+      | loaded e installed ho hb =>
+        have hinst' : installed = true := by
+          rcases ho with ⟨_, _, _, _, hx⟩ | ⟨_, _, hx⟩
+          · exact hx
+          · rw [hx]; exact hinst
+        subst hinst'
+        refine ⟨d, ⟨?_, hD.dir, hD.lin, ?_, ?_⟩⟩
+        · intro n e1 j l' he hj hl'
+          simp only [if_true] at he hl'
+          by_cases hn : n = r.name
+          · subst hn; rw [kget_kset_same] at he; cases he
+            simp [loadedEntry] at hj; subst hj
+            rw [get_append_new] at hl'; cases hl'
+            exact h.load_R _ _
+          · rw [kget_kset_other _ _ _ _ hn] at he
+            obtain ⟨l0, hl0⟩ := hP.valid n e1 j he hj
+            rw [get_append_left _ _ _ _ hl0] at hl'; cases hl'
+            exact hD.faithful n e1 j _ he hj hl0
+        · intro hc t r' i' l' hget hrc hl'
+          simp only at hget hl'
+          rcases pcs_cases c tid t _ _ _ hpc hget with ⟨_, h2⟩ | ⟨_, h2⟩
+          · cases h2
+            rw [get_append_new] at hl'; cases hl'
+            simp [hrc, hc] at hb; exact hb
+          · obtain ⟨e1, he1, hei1⟩ := hP.held t _ r'.name i' h2 rfl
+            obtain ⟨l0, hl0⟩ := hP.valid r'.name e1 i' he1 hei1
+            rw [get_append_left _ _ _ _ hl0] at hl'; cases hl'
+            exact hD.marked hc t r' i' _ h2 hrc hl0
+        · intro t r' hor
+          simp only at hor
+          rcases hor with hget | ⟨i', hget⟩
+          · rcases pcs_cases c tid t _ _ _ hpc hget with ⟨_, h2⟩ | ⟨_, h2⟩
+            · cases h2
+            · exact hD.keeps t r' (Or.inl h2)
+          · rcases pcs_cases c tid t _ _ _ hpc hget with ⟨_, h2⟩ | ⟨_, h2⟩
+            · cases h2; exact hD.keeps tid _ (Or.inl hpc)
+            · exact hD.keeps t r' (Or.inr ⟨i', h2⟩)
+      | loadFailed e installed ho hb =>
+        have hinst' : installed = true := by
+          rcases ho with ⟨_, _, _, _, hx⟩ | ⟨_, _, hx⟩
+          · exact hx
+          · rw [hx]; exact hinst
+        subst hinst'
+        have hei : e.inst = none := by
+          rcases ho with ⟨e0, h1, h2, h3, _⟩ | ⟨h1, h3, _⟩
+          · subst h3; exact h2
+          · subst h3; rfl
+        have hb' : reqCheck r = true ∧ cfg.checkExistence = true ∧ sem.created (sem.load now (storeOf c.store r.name)) = false := by
+          simp [Bool.and_eq_true] at hb; exact ⟨hb.1.1, hb.1.2, hb.2⟩
+        have hreq : reqD cfg.checkExistence d r 0 = (d, .notFound) := by
+          cases r with
+          | api n op =>
+            apply reqD_api_fail
+            have := h.created_eq _ _ _ (hD.dir n 0).2 (h.load_R now (storeOf c.store n))
+            simp only [Req.name] at hb'
+            simp [hb'.2.1, this, hb'.2.2]
+          | create n => simp [reqCheck] at hb'
+          | peek n => simp [reqCheck] at hb'
+        refine ⟨d, ⟨?_, hD.dir, lin_step _ s0 c _ d d r .notFound hD.lin rfl hreq, ?_, ?_⟩⟩
+        · intro n e1 j l' he hj hl'
+          simp only [if_true] at he hl'
+          by_cases hn : n = r.name
+          · subst hn; rw [kget_kset_same] at he; cases he
+            rw [hei] at hj; cases hj
+          · rw [kget_kset_other _ _ _ _ hn] at he; exact hD.faithful n e1 j l' he hj hl'
+        · intro hc t r' i' l' hget hrc hl'
+          simp only at hget hl'
+          rcases pcs_cases c tid t _ _ _ hpc hget with ⟨_, h2⟩ | ⟨_, h2⟩
+          · cases h2
+          · exact hD.marked hc t r' i' l' h2 hrc hl'
+        · intro t r' hor
+          simp only at hor
+          rcases hor with hget | ⟨i', hget⟩
+          · rcases pcs_cases c tid t _ _ _ hpc hget with ⟨_, h2⟩ | ⟨_, h2⟩
+            · cases h2
+            · exact hD.keeps t r' (Or.inl h2)
+          · rcases pcs_cases c tid t _ _ _ hpc hget with ⟨_, h2⟩ | ⟨_, h2⟩
+            · cases h2
+            · exact hD.keeps t r' (Or.inr ⟨i', h2⟩)
+    | opened r i =>
+      simp only
+      have hres := callC_res c r i
+      generalize callC c r i = x at hres
+      -- the instance this thread holds is the cached one, and it is faithful
+      obtain ⟨e, he, hei⟩ := hP.held tid _ r.name i hpc rfl
+      obtain ⟨l0, hl0⟩ := hP.valid r.name e i he hei
+      have hR0 : h.R l0 (storeOf c.store r.name) := hD.faithful r.name e i l0 he hei hl0
+      -- threads and table after a call that only appends to the log
+      have hlogonly : ∀ (o : Out sem) (d' : DSt sem), reqD cfg.checkExistence d r 0 = (d', o) →
+          (∀ n t, (dget d' n t).2 = storeOf c.store n ∧ h.R (dget d' n t).1 (storeOf c.store n)) →
+          DInv h cfg.checkExistence s0 ({ c with log := c.log ++ [(r, o)], pcs := setNth c.pcs tid (.releasing r.name (some i) o) } : CSt sem) d' := by
+        intro o d' hreq hdir
+        refine ⟨hD.faithful, hdir, lin_step _ s0 c _ d d' r o hD.lin rfl hreq, ?_, ?_⟩
+        · intro hc t r' i' l' hget hrc hl'
+          simp only at hget hl'
+          rcases pcs_cases c tid t _ _ _ hpc hget with ⟨_, h2⟩ | ⟨_, h2⟩
+          · cases h2
+          · exact hD.marked hc t r' i' l' h2 hrc hl'
+        · intro t r' hor
+          simp only at hor
+          rcases hor with hget | ⟨i', hget⟩
+          · rcases pcs_cases c tid t _ _ _ hpc hget with ⟨_, h2⟩ | ⟨_, h2⟩
+            · cases h2
+            · exact hD.keeps t r' (Or.inl h2)
+          · rcases pcs_cases c tid t _ _ _ hpc hget with ⟨_, h2⟩ | ⟨_, h2⟩
+            · cases h2
+            · exact hD.keeps t r' (Or.inr ⟨i', h2⟩)
+      -- a call that writes through the instance: `l2` / `s2` = the instance and the storage afterwards
+      have hwrite : ∀ (o : Out sem) (d' : DSt sem) (l2 : sem.L) (s2 : sem.S), reqD cfg.checkExistence d r 0 = (d', o) →
+          h.R l2 s2 → (cfg.checkExistence = true → sem.created l0 = true → sem.created l2 = true) →
+          (∀ n t, (dget d' n t).2 = storeOf (kset c.store r.name s2) n ∧ h.R (dget d' n t).1 (storeOf (kset c.store r.name s2) n)) →
+          DInv h cfg.checkExistence s0 ({ c with insts := setNth c.insts i (r.name, l2), store := kset c.store r.name s2, log := c.log ++ [(r, o)], pcs := setNth c.pcs tid (.releasing r.name (some i) o) } : CSt sem) d' := by
+        intro o d' l2 s2 hreq hR2 hmk hdir
+        have hilt := lt_of_get_some _ _ _ hl0
+        refine ⟨?_, hdir, lin_step _ s0 c _ d d' r o hD.lin rfl hreq, ?_, ?_⟩
+        · intro n e1 j l' he1 hj hl'
+          simp only at he1 hl'
+          by_cases hji : j = i
+          · subst hji
+            rw [setNth_get_same _ _ _ hilt] at hl'; cases hl'
+            rw [storeOf_kset_same]; exact hR2
+          · rw [setNth_get_other _ _ _ _ hji] at hl'
+            have hn : n ≠ r.name := by
+              intro hn; subst hn
+              rw [he] at he1; cases he1
+              rw [hei] at hj; cases hj; exact hji rfl
+            rw [storeOf_kset_other _ _ _ _ hn]
+            exact hD.faithful n e1 j l' he1 hj hl'
+        · intro hc t r' i' l' hget hrc hl'
+          simp only at hget hl'
+          rcases pcs_cases c tid t _ _ _ hpc hget with ⟨_, h2⟩ | ⟨_, h2⟩
+          · cases h2
+          · by_cases hji : i' = i
+            · subst hji
+              rw [setNth_get_same _ _ _ hilt] at hl'
+              have hinj := Option.some.inj hl'
+              have hnm : r.name = r'.name := congrArg Prod.fst hinj
+              have hl2 : l2 = l' := congrArg Prod.snd hinj
+              subst hl2
+              exact hmk hc (hD.marked hc t r' i' l0 h2 hrc (by rw [hl0, hnm]))
+            · rw [setNth_get_other _ _ _ _ hji] at hl'
+              exact hD.marked hc t r' i' l' h2 hrc hl'
+        · intro t r' hor
+          simp only at hor
+          rcases hor with hget | ⟨i', hget⟩
+          · rcases pcs_cases c tid t _ _ _ hpc hget with ⟨_, h2⟩ | ⟨_, h2⟩
+            · cases h2
+            · exact hD.keeps t r' (Or.inl h2)
+          · rcases pcs_cases c tid t _ _ _ hpc hget with ⟨_, h2⟩ | ⟨_, h2⟩
+            · cases h2
+            · exact hD.keeps t r' (Or.inr ⟨i', h2⟩)
+      cases hres with
+      | stuck _ =>
+        simp only
+        rw [setNth_same_eq _ _ _ hpc]; exact ⟨d, hD⟩
+      | api n op nm l hr hg =>
+        subst hr
+        have hl : l = l0 := by rw [hg] at hl0; cases hl0; rfl
+        subst hl
+        have hnm : nm = n := by rw [hg] at hl0; cases hl0; rfl
+        have hR : h.R l (storeOf c.store n) := hR0
+        obtain ⟨hp2, hpR⟩ := hD.dir n 0
+        have hcp : (cfg.checkExistence && !sem.created (dget d n 0).1) = false := by
+          rw [h.created_eq _ _ _ hpR hR]
+          cases hc : cfg.checkExistence with
+          | false => rfl
+          | true => simp [hD.marked hc tid (.api n op) i l hpc rfl (by rw [hg, hnm]; rfl)]
+        have hx : (sem.exec l (storeOf c.store n) op).2 = (sem.exec (dget d n 0).1 (dget d n 0).2 op).2 := by
+          rw [hp2]; exact h.exec_eq _ _ _ _ hR hpR
+        have hreq := reqD_api_ok d n op 0 cfg.checkExistence hcp
+        rw [← hx] at hreq
+        refine ⟨_, hwrite _ _ (sem.exec l (storeOf c.store n) op).1 (sem.exec l (storeOf c.store n) op).2.1 hreq
+          (h.exec_R _ _ _ hR) ?_ ?_⟩
+        · intro hc hcl
+          exact hD.keeps tid (.api n op) (Or.inr ⟨i, hpc⟩) hc l _ hcl
+        · intro m t
+          by_cases hm : m = n
+          · subst hm
+            rw [dget_kset_same]
+            simp only [Req.name, storeOf_kset_same]
+            constructor
+            · first | trivial | rfl | rw [hx]
+            · have := h.exec_R _ _ op hpR
+              first | (rw [hx]; exact this) | (rw [hx, hp2]; exact this)
+          · rw [dget_kset_other _ _ _ _ _ hm]
+            simp only [Req.name, storeOf_kset_other _ _ _ _ hm]
+            exact hD.dir m t
+      | createOld n nm l hr hg hc =>
+        subst hr
+        have hl : l = l0 := by rw [hg] at hl0; cases hl0; rfl
+        subst hl
+        obtain ⟨hp2, hpR⟩ := hD.dir n 0
+        have hreq := reqD_create_old cfg.checkExistence d n 0 (by rw [h.created_eq _ _ _ hpR hR0]; exact hc)
+        exact ⟨d, hlogonly _ d hreq hD.dir⟩
+      | createNew n nm l hr hg hc =>
+        subst hr
+        have hl : l = l0 := by rw [hg] at hl0; cases hl0; rfl
+        subst hl
+        have hR : h.R l (storeOf c.store n) := hR0
+        obtain ⟨hp2, hpR⟩ := hD.dir n 0
+        have hreq := reqD_create_new cfg.checkExistence d n 0 (by rw [h.created_eq _ _ _ hpR hR]; exact hc)
+        refine ⟨_, hwrite _ _ (sem.mark l (storeOf c.store n)).1 (sem.mark l (storeOf c.store n)).2 hreq
+          (h.mark_R _ _ hR) (fun _ _ => h.mark_created _ _) ?_⟩
+        intro m t
+        by_cases hm : m = n
+        · subst hm
+          rw [dget_kset_same]
+          simp only [Req.name, storeOf_kset_same]
+          rw [hp2]
+          exact ⟨(h.mark_eq _ _ _ hR hpR).symm, h.mark_eq _ _ _ hR hpR ▸ h.mark_R _ _ hpR⟩
+        · rw [dget_kset_other _ _ _ _ _ hm]
+          simp only [Req.name, storeOf_kset_other _ _ _ _ hm]
+          exact hD.dir m t
+      | peek n nm l hr hg =>
+        subst hr
+        exact ⟨d, hlogonly _ d (by simp [reqD]) hD.dir⟩
+    | releasing n inst out =>
+      simp only
+      have hrest : ∀ (table' : List (String × HEntry)),
+          (∀ m e1 j, kget table' m = some e1 → e1.inst = some j → ∃ e0, kget c.table m = some e0 ∧ e0.inst = some j) →
+          DInv h cfg.checkExistence s0 ({ c with table := table', pcs := setNth c.pcs tid (.done inst out) } : CSt sem) d := by
+        intro table' hfrom
+        refine ⟨?_, hD.dir, hD.lin, ?_, ?_⟩
+        · intro m e1 j l' he1 hj hl'
+          obtain ⟨e0, h0, h1⟩ := hfrom m e1 j he1 hj
+          exact hD.faithful m e0 j l' h0 h1 hl'
+        · intro hc t r' i' l' hget hrc hl'
+          simp only at hget hl'
+          rcases pcs_cases c tid t _ _ _ hpc hget with ⟨_, h2⟩ | ⟨_, h2⟩
+          · cases h2
+          · exact hD.marked hc t r' i' l' h2 hrc hl'
+        · intro t r' hor
+          simp only at hor
+          rcases hor with hget | ⟨i', hget⟩
+          · rcases pcs_cases c tid t _ _ _ hpc hget with ⟨_, h2⟩ | ⟨_, h2⟩
+            · cases h2
+            · exact hD.keeps t r' (Or.inl h2)
+          · rcases pcs_cases c tid t _ _ _ hpc hget with ⟨_, h2⟩ | ⟨_, h2⟩
+            · cases h2
+            · exact hD.keeps t r' (Or.inr ⟨i', h2⟩)
+      unfold relC
+      cases hk : kget c.table n with
+      | none => simp only; exact ⟨d, hrest c.table (fun m e1 j h1 h2 => ⟨e1, h1, h2⟩)⟩
+      | some e =>
+        simp only
+        cases hr : releasedEntry e now with
+        | some e' =>
+          have he' : e'.inst = e.inst := by
+            unfold releasedEntry at hr
+            simp only at hr
+            split at hr
+            · cases hr; rfl
+            · cases hr
+          refine ⟨d, hrest _ ?_⟩
+          intro m e1 j h1 h2
+          by_cases hm : m = n
+          · subst hm; rw [kget_kset_same] at h1; cases h1; exact ⟨e, hk, he' ▸ h2⟩
+          · rw [kget_kset_other _ _ _ _ hm] at h1; exact ⟨e1, h1, h2⟩
+        | none =>
+          refine ⟨d, hrest _ ?_⟩
+          intro m e1 j h1 h2
+          by_cases hm : m = n
+          · subst hm; rw [kget_kdel_same] at h1; cases h1
+          · rw [kget_kdel_other _ _ _ hm] at h1; exact ⟨e1, h1, h2⟩
+
+theorem dinv_init (h : ReloadOK sem) (check : Bool) (s0 : List (String × sem.S)) (reqs : List (Req sem))
+    (hk : ∀ r ∈ reqs, ReqKeeps sem check r) :
+    DInv h check s0 (cinit s0 reqs : CSt sem) { base := s0 } := by
+  refine ⟨?_, ?_, rfl, ?_, ?_⟩
+  · intro n e i l he; simp [cinit, kget] at he
+  · intro n t; exact ⟨rfl, h.load_R _ _⟩
+  · intro _ t r i l hget
+    simp only [cinit] at hget
+    rw [List.getElem?_map] at hget
+    cases hr : reqs[t]? with
+    | none => simp [hr] at hget
+    | some r0 => simp [hr] at hget
+  · intro t r hor
+    simp only [cinit] at hor
+    rcases hor with hget | ⟨i, hget⟩
+    · rw [List.getElem?_map] at hget
+      cases hr : reqs[t]? with
+      | none => simp [hr] at hget
+      | some r0 =>
+        simp [hr] at hget; subst hget
+        exact hk r0 (List.mem_of_getElem? hr)
+    · rw [List.getElem?_map] at hget
+      cases hr : reqs[t]? with
+      | none => simp [hr] at hget
+      | some r0 => simp [hr] at hget
+
+theorem dinv_crun (h : ReloadOK sem) (cfg : Cfg) (hinst : installs cfg = true) (s0 : List (String × sem.S)) :
+    ∀ (sched : List (Nat × Int)) (c : CSt sem) (d : DSt sem), PInv c → DInv h cfg.checkExistence s0 c d →
+      ∃ d', DInv h cfg.checkExistence s0 (crun cfg c sched) d' := by
+  intro sched
+  induction sched with
+  | nil => intro c d _ hD; exact ⟨d, hD⟩
+  | cons a rest ih =>
+    intro c d hP hD
+    obtain ⟨tid, now⟩ := a
+    simp only [crun]
+    obtain ⟨d', hD'⟩ := dinv_cstep h cfg hinst s0 c tid now d hP hD
+    exact ih _ d' (pinv_cstep cfg hinst c tid now hP) hD'
+
+
+/-! ### every answer is in the log -/
+
+/-- what is known about a thread at `pc`: it runs the request `reqs[t]`; once its answer is determined, request and
+answer are in the log -/
+def LProp (reqs : List (Req sem)) (log : List (Req sem × Out sem)) (t : Nat) : PC sem → Prop
+  | .start r => reqs[t]? = some r
+  | .opened r _ => reqs[t]? = some r
+  | .releasing _ _ o => ∃ r, reqs[t]? = some r ∧ (r, o) ∈ log
+  | .done _ o => ∃ r, reqs[t]? = some r ∧ (r, o) ∈ log
+
+def LInv (reqs : List (Req sem)) (c : CSt sem) : Prop :=
+  ∀ (t : Nat) (pc : PC sem), c.pcs[t]? = some pc → LProp reqs c.log t pc
+
+theorem openRes_log (cfg : Cfg) (c : CSt sem) (r : Req sem) (now : Int) (x : CSt sem × PC sem) (h : OpenRes cfg c r now x) :
+    x.1.pcs = c.pcs ∧ (∀ p, p ∈ c.log → p ∈ x.1.log) ∧
+    (x.2 = .start r ∨ (∃ i, x.2 = .opened r i) ∨ (∃ n inst o, x.2 = .releasing n inst o ∧ (r, o) ∈ x.1.log)) := by
+  cases h with
+  | stuck => exact ⟨rfl, fun p hp => hp, Or.inl rfl⟩
+  | served e0 i nm l hk hi hg hb => exact ⟨rfl, fun p hp => hp, Or.inr (Or.inl ⟨i, rfl⟩)⟩
+  | refused e0 i nm l hk hi hg hb =>
+    exact ⟨rfl, fun p hp => List.mem_append_left _ hp, Or.inr (Or.inr ⟨_, _, _, rfl, by simp⟩)⟩
+  | loaded e installed ho hb => exact ⟨rfl, fun p hp => hp, Or.inr (Or.inl ⟨_, rfl⟩)⟩
+  | loadFailed e installed ho hb =>
+    exact ⟨rfl, fun p hp => List.mem_append_left _ hp, Or.inr (Or.inr ⟨_, _, _, rfl, by simp⟩)⟩
+
+theorem callRes_log (c : CSt sem) (r : Req sem) (i : Nat) (x : CSt sem × PC sem) (h : CallRes c r i x) :
+    x.1.pcs = c.pcs ∧ (∀ p, p ∈ c.log → p ∈ x.1.log) ∧
+    (x.2 = .opened r i ∨ (∃ n inst o, x.2 = .releasing n inst o ∧ (r, o) ∈ x.1.log)) := by
+  cases h with
+  | stuck _ => exact ⟨rfl, fun p hp => hp, Or.inl rfl⟩
+  | api n op nm l hr hg => exact ⟨rfl, fun p hp => List.mem_append_left _ hp, Or.inr ⟨_, _, _, rfl, by simp⟩⟩
+  | createOld n nm l hr hg hc => exact ⟨rfl, fun p hp => List.mem_append_left _ hp, Or.inr ⟨_, _, _, rfl, by simp⟩⟩
+  | createNew n nm l hr hg hc => exact ⟨rfl, fun p hp => List.mem_append_left _ hp, Or.inr ⟨_, _, _, rfl, by simp⟩⟩
+  | peek n nm l hr hg => exact ⟨rfl, fun p hp => List.mem_append_left _ hp, Or.inr ⟨_, _, _, rfl, by simp⟩⟩
+
+theorem linv_mono (reqs : List (Req sem)) (log log' : List (Req sem × Out sem))
+    (hmono : ∀ p, p ∈ log → p ∈ log') (t : Nat) (pc : PC sem) (h : LProp reqs log t pc) : LProp reqs log' t pc := by
+  cases pc with
+  | start r => exact h
+  | opened r i => exact h
+  | releasing n inst o => obtain ⟨r, h1, h2⟩ := h; exact ⟨r, h1, hmono _ h2⟩
+  | done i o => obtain ⟨r, h1, h2⟩ := h; exact ⟨r, h1, hmono _ h2⟩
+
+theorem linv_cstep (cfg : Cfg) (reqs : List (Req sem)) (c : CSt sem) (tid : Nat) (now : Int) (hL : LInv reqs c) :
+    LInv reqs (cstep cfg c tid now) := by
+  unfold cstep
+  cases hpc : c.pcs[tid]? with
+  | none => exact hL
+  | some pc0 =>
+    simp only
+    cases pc0 with
+    | done i o => exact hL
+    | start r =>
+      simp only
+      obtain ⟨h1, h2, h3⟩ := openRes_log cfg c r now _ (openC_res cfg c r now)
+      generalize openC cfg c r now = x at h1 h2 h3
+      intro t pc hget
+      simp only [h1] at hget
+      rcases get_after_set c.pcs tid t _ _ pc hpc hget with ⟨ht, hp⟩ | ⟨_, hp⟩
+      · subst ht; subst hp
+        have hr : reqs[t]? = some r := hL t _ hpc
+        rcases h3 with h3 | ⟨i, h3⟩ | ⟨n, inst, o, h3, hmem⟩
+        · rw [h3]; exact hr
+        · rw [h3]; exact hr
+        · rw [h3]; exact ⟨r, hr, hmem⟩
+      · exact linv_mono reqs c.log x.1.log h2 t pc (hL t pc hp)
+    | opened r i =>
+      simp only
+      obtain ⟨h1, h2, h3⟩ := callRes_log c r i _ (callC_res c r i)
+      generalize callC c r i = x at h1 h2 h3
+      intro t pc hget
+      simp only [h1] at hget
+      rcases get_after_set c.pcs tid t _ _ pc hpc hget with ⟨ht, hp⟩ | ⟨_, hp⟩
+      · subst ht; subst hp
+        have hr : reqs[t]? = some r := hL t _ hpc
+        rcases h3 with h3 | ⟨n, inst, o, h3, hmem⟩
+        · rw [h3]; exact hr
+        · rw [h3]; exact ⟨r, hr, hmem⟩
+      · exact linv_mono reqs c.log x.1.log h2 t pc (hL t pc hp)
+    | releasing n inst out =>
+      simp only
+      have hlog : (relC c n now).log = c.log := by
+        unfold relC; cases kget c.table n with
+        | none => rfl
+        | some e => simp only; cases releasedEntry e now <;> rfl
+      have hpcs : (relC c n now).pcs = c.pcs := by
+        unfold relC; cases kget c.table n with
+        | none => rfl
+        | some e => simp only; cases releasedEntry e now <;> rfl
+      intro t pc hget
+      simp only [hpcs] at hget
+      rcases get_after_set c.pcs tid t _ _ pc hpc hget with ⟨ht, hp⟩ | ⟨_, hp⟩
+      · subst ht; subst hp
+        have hr : ∃ r, reqs[t]? = some r ∧ (r, out) ∈ c.log := hL t _ hpc
+        show ∃ r, reqs[t]? = some r ∧ (r, out) ∈ (relC c n now).log
+        rw [hlog]; exact hr
+      · show LProp reqs (relC c n now).log t pc
+        rw [hlog]; exact hL t pc hp
+
+theorem linv_init (store : List (String × sem.S)) (reqs : List (Req sem)) : LInv reqs (cinit store reqs : CSt sem) := by
+  intro t pc hget
+  simp only [cinit] at hget
+  rw [List.getElem?_map] at hget
+  cases hr : reqs[t]? with
+  | none => simp [hr] at hget
+  | some r => simp [hr] at hget; subst hget; exact hr
+
+theorem linv_crun (cfg : Cfg) (reqs : List (Req sem)) :
+    ∀ (sched : List (Nat × Int)) (c : CSt sem), LInv reqs c → LInv reqs (crun cfg c sched) := by
+  intro sched
+  induction sched with
+  | nil => intro c h; exact h
+  | cons a rest ih =>
+    intro c h
+    obtain ⟨tid, now⟩ := a
+    simp only [crun]
+    exact ih _ (linv_cstep cfg reqs c tid now h)
+
+/-! ### concurrent first requests: one load -/
+
+/-- the requests for `n` overlap: nobody has released yet -/
+inductive Phase (cfg : Cfg) (n : String) (c : CSt sem) : Prop where
+  | fresh : kget c.table n = none → c.loads = [] → c.insts = [] →
+      (∀ (t : Nat) (pc : PC sem), c.pcs[t]? = some pc →
+        ∃ r, pc = PC.start r ∧ r.name = n ∧ (reqCheck r && cfg.checkExistence) = false) → Phase cfg n c
+  | loaded (e : HEntry) : kget c.table n = some e → e.inst = some 0 → c.loads = [n] → c.insts.length = 1 →
+      (∀ (t : Nat) (pc : PC sem), c.pcs[t]? = some pc →
+        (∃ r, pc = PC.start r ∧ r.name = n ∧ (reqCheck r && cfg.checkExistence) = false) ∨
+        (∃ r, pc = PC.opened r 0 ∧ r.name = n) ∨ (∃ o, pc = PC.releasing n (some 0) o)) → Phase cfg n c
+  | over (t : Nat) : isDone c t = true → Phase cfg n c
+
+theorem isDone_mono (cfg : Cfg) (c : CSt sem) (tid : Nat) (now : Int) (t : Nat) (h : isDone c t = true) :
+    isDone (cstep cfg c tid now) t = true := by
+  unfold isDone at h ⊢
+  cases hpt : c.pcs[t]? with
+  | none => simp [hpt] at h
+  | some pc =>
+    cases pc with
+    | done i o =>
+      have key : ∀ (c' : CSt sem) (pc' : PC sem), c'.pcs = c.pcs → tid ≠ t →
+          (({ c' with pcs := setNth c'.pcs tid pc' } : CSt sem).pcs[t]?) = some (PC.done i o) := by
+        intro c' pc' hp hne
+        simp only [hp]; rw [setNth_get_other _ _ _ _ (Ne.symm hne)]; exact hpt
+      unfold cstep
+      cases hpc : c.pcs[tid]? with
+      | none => simp [hpt]
+      | some pc0 =>
+        by_cases hne : tid = t
+        · subst hne; rw [hpt] at hpc; cases hpc; simp [hpt]
+        · simp only
+          cases pc0 with
+          | done j o' => simp [hpt]
+          | start r =>
+            simp only
+            rw [key _ _ (openRes_log cfg c r now _ (openC_res cfg c r now)).1 hne]
+          | opened r j =>
+            simp only
+            rw [key _ _ (callRes_log c r j _ (callC_res c r j)).1 hne]
+          | releasing m inst o' =>
+            simp only
+            have hpcs : (relC c m now).pcs = c.pcs := by
+              unfold relC; cases kget c.table m with
+              | none => rfl
+              | some e => simp only; cases releasedEntry e now <;> rfl
+            rw [key _ _ hpcs hne]
+    | start r => simp [hpt] at h
+    | opened r i => simp [hpt] at h
+    | releasing m inst o => simp [hpt] at h
+
+theorem phase_step (cfg : Cfg) (hinst : installs cfg = true) (n : String) (c : CSt sem) (tid : Nat) (now : Int)
+    (hp : Phase cfg n c) : Phase cfg n (cstep cfg c tid now) := by
+  cases hp with
+  | over t ht => exact Phase.over t (isDone_mono cfg c tid now t ht)
+  | fresh htab hloads hinsts hpcs =>
+    cases hpc : c.pcs[tid]? with
+    | none => simp only [cstep, hpc]; exact Phase.fresh htab hloads hinsts hpcs
+    | some pc0 =>
+      obtain ⟨r, hr, hrn, hchk⟩ := hpcs tid pc0 hpc
+      subst hr; subst hrn
+      have hchk' : (reqCheck r && cfg.checkExistence && !sem.created (sem.load now (storeOf c.store r.name))) = false := by
+        rw [hchk]; rfl
+      have hstep : cstep cfg c tid now =
+          { c with loads := c.loads ++ [r.name], insts := c.insts ++ [(r.name, sem.load now (storeOf c.store r.name))],
+                   table := kset c.table r.name (loadedEntry { expires := newExpires cfg now, pending := 1, inst := none } c.insts.length now (sem.cacheTTL (sem.load now (storeOf c.store r.name)))),
+                   pcs := setNth c.pcs tid (.opened r c.insts.length) } := by
+        simp [cstep, hpc, openC, htab, loadC, hchk', hinst]
+      rw [hstep]
+      refine Phase.loaded _ (kget_kset_same _ _ _) (by simp [loadedEntry, hinsts]) (by simp [hloads]) (by simp [hinsts]) ?_
+      intro t pc hget
+      simp only at hget
+      rcases get_after_set c.pcs tid t _ _ pc hpc hget with ⟨_, h2⟩ | ⟨_, h2⟩
+      · subst h2; exact Or.inr (Or.inl ⟨r, by simp [hinsts], rfl⟩)
+      · exact Or.inl (hpcs t pc h2)
+  | loaded e htab hsome hloads hinsts hpcs =>
+    cases hpc : c.pcs[tid]? with
+    | none => simp only [cstep, hpc]; exact Phase.loaded e htab hsome hloads hinsts hpcs
+    | some pc0 =>
+      have h0 : ∃ p, c.insts[0]? = some p := by
+        cases hi : c.insts with
+        | nil => simp [hi] at hinsts
+        | cons a r => exact ⟨a, rfl⟩
+      obtain ⟨⟨nm, l⟩, hg⟩ := h0
+      rcases hpcs tid pc0 hpc with ⟨r, hr, hrn, hchk⟩ | ⟨r, hr, hrn⟩ | ⟨o, hr⟩
+      · subst hr; subst hrn
+        have hchk' : (reqCheck r && cfg.checkExistence && !sem.created l) = false := by rw [hchk]; rfl
+        have hstep : cstep cfg c tid now =
+            { c with table := kset c.table r.name { e with pending := e.pending + 1 },
+                     pcs := setNth c.pcs tid (.opened r 0) } := by
+          simp [cstep, hpc, openC, htab, hsome, servedC, hg, hchk']
+        rw [hstep]
+        refine Phase.loaded _ (kget_kset_same _ _ _) hsome hloads hinsts ?_
+        intro t pc hget
+        simp only at hget
+        rcases get_after_set c.pcs tid t _ _ pc hpc hget with ⟨_, h2⟩ | ⟨_, h2⟩
+        · subst h2; exact Or.inr (Or.inl ⟨r, rfl, rfl⟩)
+        · exact hpcs t pc h2
+      · subst hr; subst hrn
+        obtain ⟨hx1, hx2, hx3, hx4⟩ : (∃ out, (callC c r 0).2 = .releasing r.name (some 0) out) ∧ (callC c r 0).1.table = c.table ∧
+            (callC c r 0).1.loads = c.loads ∧ (callC c r 0).1.insts.length = c.insts.length ∧ (callC c r 0).1.pcs = c.pcs := by
+          have hres := callC_res c r 0
+          generalize callC c r 0 = x at hres
+          cases hres with
+          | stuck hnone => rw [hg] at hnone; cases hnone
+          | api n' op nm' l' hr' hg' => subst hr'; exact ⟨⟨_, rfl⟩, rfl, rfl, by simp [setNth_length], rfl⟩
+          | createOld n' nm' l' hr' hg' hc => subst hr'; exact ⟨⟨_, rfl⟩, rfl, rfl, rfl, rfl⟩
+          | createNew n' nm' l' hr' hg' hc => subst hr'; exact ⟨⟨_, rfl⟩, rfl, rfl, by simp [setNth_length], rfl⟩
+          | peek n' nm' l' hr' hg' => subst hr'; exact ⟨⟨_, rfl⟩, rfl, rfl, rfl, rfl⟩
+        obtain ⟨out, hout⟩ := hx1
+        simp only [cstep, hpc]
+        refine Phase.loaded e (by simp only [hx2]; exact htab) hsome (by simp only [hx3]; exact hloads)
+          (by simp only [hx4.1]; exact hinsts) ?_
+        intro t pc hget
+        simp only [hx4.2] at hget
+        rcases get_after_set c.pcs tid t _ _ pc hpc hget with ⟨_, h2⟩ | ⟨_, h2⟩
+        · subst h2; rw [hout]; exact Or.inr (Or.inr ⟨out, rfl⟩)
+        · exact hpcs t pc h2
+      · subst hr
+        refine Phase.over tid ?_
+        have hpcs' : (relC c n now).pcs = c.pcs := by
+          unfold relC; cases kget c.table n with
+          | none => rfl
+          | some e => simp only; cases releasedEntry e now <;> rfl
+        simp only [cstep, hpc, isDone, hpcs']
+        rw [setNth_get_same _ _ _ (lt_of_get_some _ _ _ hpc)]
+
+theorem phase_run (cfg : Cfg) (hinst : installs cfg = true) (n : String) :
+    ∀ (sched : List (Nat × Int)) (c : CSt sem), Phase cfg n c → Phase cfg n (crun cfg c sched) := by
+  intro sched
+  induction sched with
+  | nil => intro c hp; exact hp
+  | cons a rest ih =>
+    intro c hp
+    obtain ⟨tid, now⟩ := a
+    simp only [crun]
+    exact ih _ (phase_step cfg hinst n c tid now hp)
+
+theorem phase_init (cfg : Cfg) (n : String) (store : List (String × sem.S)) (reqs : List (Req sem))
+    (hreqs : ∀ r ∈ reqs, r.name = n ∧ (reqCheck r && cfg.checkExistence) = false) :
+    Phase cfg n (cinit store reqs : CSt sem) := by
   refine Phase.fresh rfl rfl rfl ?_
   intro t pc h
-  simp only [cinit, List.map_replicate] at h
-  rw [List.getElem?_replicate] at h
-  split at h
-  · cases h; rfl
-  · cases h
+  simp only [cinit] at h
+  rw [List.getElem?_map] at h
+  cases hr : reqs[t]? with
+  | none => simp [hr] at h
+  | some r =>
+    simp [hr] at h; subst h
+    exact ⟨r, rfl, hreqs r (List.mem_of_getElem? hr)⟩
 
-theorem phase_facts (n : String) (c : CSt sem) (hp : Phase n c) :
-    c.loads.length ≤ 1 ∧ (∀ t i, instOf c t = some i → i = 0) ∧ (∀ t, isDone c t = true → c.loads = [n] ∧ instOf c t = some 0) := by
+theorem phase_facts (cfg : Cfg) (n : String) (c : CSt sem) (hp : Phase cfg n c) (hnd : ∀ t, isDone c t = false) :
+    c.loads.length ≤ 1 ∧ (∀ t i, instOf c t = some i → i = 0) ∧ (∀ t i, instOf c t = some i → c.loads = [n]) := by
   cases hp with
+  | over t ht => rw [hnd t] at ht; cases ht
   | fresh htab hloads hinsts hpcs =>
-    refine ⟨by simp [hloads], ?_, ?_⟩
+    refine ⟨by simp [hloads], ?_, ?_⟩ <;>
     · intro t i h
       unfold instOf at h
       cases hpc : c.pcs[t]? with
       | none => simp [hpc] at h
-      | some pc => have := hpcs t pc hpc; subst this; simp [hpc] at h
-    · intro t h
-      unfold isDone at h
-      cases hpc : c.pcs[t]? with
-      | none => simp [hpc] at h
-      | some pc => have := hpcs t pc hpc; subst this; simp [hpc] at h
-  | window e u ent htab hent hnone hloads hinsts hu hothers =>
-    refine ⟨by simp [hloads], ?_, ?_⟩
-    · intro t i h
-      unfold instOf at h
-      by_cases htu : t = u
-      · subst htu; simp [hu] at h
-      · cases hpc : c.pcs[t]? with
-        | none => simp [hpc] at h
-        | some pc => have := hothers t pc htu hpc; subst this; simp [hpc] at h
-    · intro t h
-      unfold isDone at h
-      by_cases htu : t = u
-      · subst htu; simp [hu] at h
-      · cases hpc : c.pcs[t]? with
-        | none => simp [hpc] at h
-        | some pc => have := hothers t pc htu hpc; subst this; simp [hpc] at h
-  | loaded e ent htab hent hsome hloads hinsts hpcs =>
+      | some pc => obtain ⟨r, hr, _⟩ := hpcs t pc hpc; subst hr; simp [hpc] at h
+  | loaded e htab hsome hloads hinsts hpcs =>
     refine ⟨by simp [hloads], ?_, ?_⟩
     · intro t i h
       unfold instOf at h
       cases hpc : c.pcs[t]? with
       | none => simp [hpc] at h
       | some pc =>
-        rcases hpcs t pc hpc with h1 | h1 | h1 | h1 <;> subst h1 <;> simp [hpc] at h
-        exact h.symm
-    · intro t h
-      unfold isDone at h
-      cases hpc : c.pcs[t]? with
-      | none => simp [hpc] at h
-      | some pc =>
-        rcases hpcs t pc hpc with h1 | h1 | h1 | h1 <;> subst h1 <;> simp [hpc] at h
-        exact ⟨hloads, by simp [instOf, hpc]⟩
+        rcases hpcs t pc hpc with ⟨r, hr, _⟩ | ⟨r, hr, _⟩ | ⟨o, hr⟩ <;> subst hr <;> simp [hpc] at h
+        · exact h.symm
+        · exact h.symm
+    · intro t i _; exact hloads
 
 end conc
+
+/-! ## the toy semantics: `add` keeps the marker -/
+
+theorem toy_add_keeps_aux (k : Nat) (l : List Nat) (hl : l.contains 0 = true) : (k :: l).contains 0 = true := by
+  rw [List.contains_cons, hl, Bool.or_true]
+
+theorem toy_add_keeps (k : Nat) : KeepsMarker toySem (TOp.add k) := fun l _ hl => toy_add_keeps_aux k l hl
